@@ -113,6 +113,19 @@ Theorem C06_claim_on_this_tree :
   else (forall poolbal rate w cstart last now cend expiry, claim_on claim_sub_unchecked poolbal rate w cstart last now cend expiry <> Panic "neg-coin").
 Proof. exact (claim_by_flag claim_sub_unchecked). Qed.
 Print Assumptions C06_claim_on_this_tree.
+Theorem C06_claim_dyn_on_this_tree :
+  if claim_sub_unchecked
+  then (exists poolbal rate w cstart last now cend expiry dyn lastcalc, claim_dyn claim_sub_unchecked poolbal rate w cstart last now cend expiry dyn lastcalc = Panic "neg-coin")
+  else (forall poolbal rate w cstart last now cend expiry dyn lastcalc, claim_dyn claim_sub_unchecked poolbal rate w cstart last now cend expiry dyn lastcalc <> Panic "neg-coin").
+Proof. exact (claim_dyn_by_flag claim_sub_unchecked). Qed.
+Print Assumptions C06_claim_dyn_on_this_tree.
+(* the time dimension of the same site: negative claim duration after a late rate recalculation *)
+Theorem C06_claim_negative_duration_refuted : exists poolbal rate w cstart last now1 now2 cend expiry lastcalc1 lastcalc2,
+  now1 <= cend /\ cend < lastcalc2 <= now2 /\
+  is_ok (claim_dyn true poolbal rate w cstart last now1 cend expiry true lastcalc1) = true /\
+  claim_dyn true poolbal rate w cstart last now2 cend expiry true lastcalc2 = Panic "neg-coin".
+Proof. exact claim_negative_duration_refuted. Qed.
+Print Assumptions C06_claim_negative_duration_refuted.
 Theorem C06_ubi_mint_on_this_tree :
   if ubi_amount_cast_int64
   then (exists amount, 0 <= amount < two64 /\ ubi_mint_on ubi_amount_cast_int64 amount = Panic "neg-coin")
@@ -210,60 +223,60 @@ Print Assumptions C06_chk_accepts_upgrade_halt.
    (another function, another kind, or one more site of a kind in a listed function) is not accounted
    for and breaks C06_panic_sites_accounted. *)
 Definition covered_table : list (string * string * nat * string * list string) := [
-  ("x/distributor/keeper.Keeper.AllocateTokens", "quo", 3%nat, "Halt.allocate: snap period and InflationPeriod divisors; InflationPeriod >= 2629800 by the validated network properties (C19), SnapPeriod comes from genesis only (default 1000) -- zero only with a broken genesis", []);
-  ("x/distributor/keeper.Keeper.AllocateTokensToValidator", "panic", 3%nat, "Halt.allocate / pay_from_collector: the payout itself is covered (allocate_never_panics) but REACHABLE once IncreasePoolRewards has paid an over-credit out of the collector first: finding AllocateTokensToValidator:insufficient-funds (C06_overcredit_shortfall_refuted)", []);
-  ("x/feeprocessing/keeper.Keeper.ProcessExecutionFeeReturn", "panic", 1%nat, "Halt.pay_from_collector: reachable only if the fee collector cannot cover the refund (collector_shortfall_panics; depends on C04/C10 over-crediting) -- not reproduced", []);
-  ("x/gov.processPoll", "panic", 1%nat, "the IsQuorum error no longer panics (fix 121883e, C06_poll_quorum_on_this_tree full strength); GetPoll error unreachable (polls are never deleted)", []);
-  ("x/gov.processProposal", "panic", 1%nat, "the IsQuorum error no longer panics (fix 121883e, flag gov_proposal_quorum_error_panics = false, C06_proposal_quorum_on_this_tree full strength); remaining panic 'proposal was expected to exist': queue entries are written together with the proposal, proposals are never deleted", []);
-  ("x/gov/types.ProposalRouter.ApplyProposal", "panic", 1%nat, "Halt.apply_proposal: 'invalid proposal type' unreachable: SubmitProposal dry-runs ApplyProposal with the same content type first (input_only_panics_filtered), routes are fixed at start-up", []);
-  ("x/spending.ApplySpendingPoolWithdrawProposalHandler.Apply", "sub", 1%nat, "SafeSub + error since fix c12fc9f (flag withdraw_sub_unchecked = false, C06_withdraw_on_this_tree full strength)", []);
-  ("x/spending/keeper.Keeper.ClaimSpendingPool", "newcoin", 1%nat, "guarded since fix c12fc9f: amount.IsNegative() returns an error before NewCoin", []);
-  ("x/spending/keeper.Keeper.ClaimSpendingPool", "sub", 1%nat, "SafeSub + error since fix c12fc9f (flag claim_sub_unchecked = false, C06_claim_on_this_tree full strength)", []);
-  ("x/spending/keeper.Keeper.EndBlocker", "quo", 1%nat, "Halt.spend_pool_step: guarded since fix 2d6ac44 (denominator positive), C06_spend_endblock_never_panics; flag spend_endblock_guarded regenerated from the tree", []);
-  ("x/spending/keeper.Keeper.EndBlocker", "newcoin", 1%nat, "Halt.new_dec_coin: rate = non-negative deposit / positive denominator since fix 2d6ac44", []);
-  ("x/staking/keeper.Keeper.BlockValidatorUpdates", "panic", 1%nat, "Halt.vend: unreachable under v_inv (staking_updates_never_panic): queues only receive keys of existing validators and validators are never deleted", []);
-  ("x/ubi.ApplyUpsertUBIProposalHandler.Apply", "quo", 2%nat, "Halt.ubi_apply_exact (C06_ubi_apply_on_this_tree): sdk.Int.Quo by p.Period after the explicit p.Period == 0 refusal, and by record.Period of stored records, which are only written by this handler after that refusal (genesis default record: 2592000; a genesis record with period 0 would make every UpsertUBI enactment panic -- genesis validation is C12's)", []);
-  ("x/ubi/keeper.Keeper.ProcessUBIRecord", "newcoin", 1%nat, "NewIntFromUint64 since fix b963c04: the amount is never negative (flag ubi_amount_cast_int64 = false, C06_ubi_mint_on_this_tree full strength)", []);
-  ("x/upgrade/keeper.Keeper.ApplyUpgradePlan", "panic", 3%nat, "Halt.upgrade_begin: the sanctioned halt (upgrade_halt_only_when_due); PauseProposalNotApprovedValidators errs only for a missing proposal (never deleted)", [])
+  ("x/distributor/keeper.Keeper.AllocateTokens", "quo", 3%nat, "Halt.allocate: snap period and InflationPeriod divisors; InflationPeriod >= 2629800 by the validated network properties (C19), SnapPeriod comes from genesis only (default 1000) -- zero only with a broken genesis", ["c0e9761d3225cd13"]);
+  ("x/distributor/keeper.Keeper.AllocateTokensToValidator", "panic", 3%nat, "Halt.allocate / pay_from_collector: the payout itself is covered (allocate_never_panics) but REACHABLE once IncreasePoolRewards has paid an over-credit out of the collector first: finding AllocateTokensToValidator:insufficient-funds (C06_overcredit_shortfall_refuted)", ["d166782fbccf4749"]);
+  ("x/feeprocessing/keeper.Keeper.ProcessExecutionFeeReturn", "panic", 1%nat, "Halt.pay_from_collector: reachable only if the fee collector cannot cover the refund (collector_shortfall_panics; depends on C04/C10 over-crediting) -- not reproduced", ["7b1d547a1ad857eb"]);
+  ("x/gov.processPoll", "panic", 1%nat, "the IsQuorum error no longer panics (fix 121883e, C06_poll_quorum_on_this_tree full strength); GetPoll error unreachable (polls are never deleted)", ["6a3c84943a00324c"]);
+  ("x/gov.processProposal", "panic", 1%nat, "the IsQuorum error no longer panics (fix 121883e, flag gov_proposal_quorum_error_panics = false, C06_proposal_quorum_on_this_tree full strength); remaining panic 'proposal was expected to exist': queue entries are written together with the proposal, proposals are never deleted", ["8627ca39f0fbd1bc"]);
+  ("x/gov/types.ProposalRouter.ApplyProposal", "panic", 1%nat, "Halt.apply_proposal: 'invalid proposal type' unreachable: SubmitProposal dry-runs ApplyProposal with the same content type first (input_only_panics_filtered), routes are fixed at start-up", ["9bc6600aa6c1ec7c"]);
+  ("x/spending.ApplySpendingPoolWithdrawProposalHandler.Apply", "sub", 1%nat, "SafeSub + error since fix c12fc9f (flag withdraw_sub_unchecked = false, C06_withdraw_on_this_tree full strength)", ["542d2367ae4f108b"]);
+  ("x/spending/keeper.Keeper.ClaimSpendingPool", "newcoin", 1%nat, "guarded since fix c12fc9f: amount.IsNegative() returns an error before NewCoin", ["51097e16338de442"]);
+  ("x/spending/keeper.Keeper.ClaimSpendingPool", "sub", 1%nat, "SafeSub + error since fix c12fc9f (flag claim_sub_unchecked = false, C06_claim_on_this_tree full strength)", ["51097e16338de442"]);
+  ("x/spending/keeper.Keeper.EndBlocker", "quo", 1%nat, "Halt.spend_pool_step: guarded since fix 2d6ac44 (denominator positive), C06_spend_endblock_never_panics; flag spend_endblock_guarded regenerated from the tree", ["715d8a8b0d13e281"]);
+  ("x/spending/keeper.Keeper.EndBlocker", "newcoin", 1%nat, "Halt.new_dec_coin: rate = non-negative deposit / positive denominator since fix 2d6ac44", ["715d8a8b0d13e281"]);
+  ("x/staking/keeper.Keeper.BlockValidatorUpdates", "panic", 1%nat, "Halt.vend: unreachable under v_inv (staking_updates_never_panic): queues only receive keys of existing validators and validators are never deleted", ["6e5c2962c463eb67"]);
+  ("x/ubi.ApplyUpsertUBIProposalHandler.Apply", "quo", 2%nat, "Halt.ubi_apply_exact (C06_ubi_apply_on_this_tree): sdk.Int.Quo by p.Period after the explicit p.Period == 0 refusal, and by record.Period of stored records, which are only written by this handler after that refusal (genesis default record: 2592000; a genesis record with period 0 would make every UpsertUBI enactment panic -- genesis validation is C12's)", ["916d25d69dfc9018"]);
+  ("x/ubi/keeper.Keeper.ProcessUBIRecord", "newcoin", 1%nat, "NewIntFromUint64 since fix b963c04: the amount is never negative (flag ubi_amount_cast_int64 = false, C06_ubi_mint_on_this_tree full strength)", ["6afc9f007454305b"]);
+  ("x/upgrade/keeper.Keeper.ApplyUpgradePlan", "panic", 3%nat, "Halt.upgrade_begin: the sanctioned halt (upgrade_halt_only_when_due); PauseProposalNotApprovedValidators errs only for a missing proposal (never deleted)", ["9972c898b1ebca59"])
 ].
 Definition audit_table : list (string * string * nat * string * list string) := [
-  ("x/basket.ApplyBasketWithdrawSurplusProposalHandler.Apply", "assert", 1%nat, "proposal content assertion inside its own handler: the router dispatches on ProposalType() of the same content, so the dynamic type matches", []);
-  ("x/basket.ApplyCreateBasketProposalHandler.Apply", "assert", 1%nat, "proposal content assertion inside its own handler: the router dispatches on ProposalType() of the same content, so the dynamic type matches", []);
-  ("x/basket.ApplyEditBasketProposalHandler.Apply", "assert", 1%nat, "proposal content assertion inside its own handler: the router dispatches on ProposalType() of the same content, so the dynamic type matches", []);
+  ("x/basket.ApplyBasketWithdrawSurplusProposalHandler.Apply", "assert", 1%nat, "proposal content assertion inside its own handler: the router dispatches on ProposalType() of the same content, so the dynamic type matches", ["022866dbdf6bbc25"]);
+  ("x/basket.ApplyCreateBasketProposalHandler.Apply", "assert", 1%nat, "proposal content assertion inside its own handler: the router dispatches on ProposalType() of the same content, so the dynamic type matches", ["1a579e954e025b65"]);
+  ("x/basket.ApplyEditBasketProposalHandler.Apply", "assert", 1%nat, "proposal content assertion inside its own handler: the router dispatches on ProposalType() of the same content, so the dynamic type matches", ["70191482707df230"]);
   ("x/basket/keeper.Keeper.AfterSlashStakingPool", "sub", 1%nat, "sdk.Int / time subtraction or Coins.Sub guarded by an error-returning balance check before it", ["8376b1e3fbd41765"]);
   ("x/basket/keeper.Keeper.CreateBasket", "index", 2%nat, "map lookup or index bounded by the enclosing loop / length check", ["b24b0406144f9784"]);
   ("x/basket/keeper.Keeper.EditBasket", "index", 6%nat, "map lookup or index bounded by the enclosing loop / length check", ["847a92afc23028ca"]);
-  ("x/basket/keeper.Keeper.GetAllBaskets", "must", 1%nat, "decodes bytes (or re-parses an address) that this module stored itself with the matching Marshal -- audited by kind", []);
-  ("x/basket/keeper.Keeper.GetBasketById", "must", 1%nat, "decodes bytes (or re-parses an address) that this module stored itself with the matching Marshal -- audited by kind", []);
-  ("x/basket/keeper.Keeper.SetBasket", "must", 1%nat, "decodes bytes (or re-parses an address) that this module stored itself with the matching Marshal -- audited by kind", []);
+  ("x/basket/keeper.Keeper.GetAllBaskets", "must", 1%nat, "decodes bytes (or re-parses an address) that this module stored itself with the matching Marshal -- audited by kind", ["f5c392dbc365b3cb"]);
+  ("x/basket/keeper.Keeper.GetBasketById", "must", 1%nat, "decodes bytes (or re-parses an address) that this module stored itself with the matching Marshal -- audited by kind", ["a54a82276f615667"]);
+  ("x/basket/keeper.Keeper.SetBasket", "must", 1%nat, "decodes bytes (or re-parses an address) that this module stored itself with the matching Marshal -- audited by kind", ["bfc00549800cf567"]);
   ("x/basket/types.Basket.RatesAndIndexes", "index", 2%nat, "map lookup or index bounded by the enclosing loop / length check", ["a6df3f44802b9f4d"]);
-  ("x/collectives.ApplyCollectiveRemoveProposalHandler.AllowedAddresses", "assert", 1%nat, "proposal content assertion inside its own handler: the router dispatches on ProposalType() of the same content, so the dynamic type matches", []);
-  ("x/collectives.ApplyCollectiveRemoveProposalHandler.Apply", "assert", 1%nat, "proposal content assertion inside its own handler: the router dispatches on ProposalType() of the same content, so the dynamic type matches", []);
-  ("x/collectives.ApplyCollectiveRemoveProposalHandler.IsAllowedAddress", "assert", 1%nat, "proposal content assertion inside its own handler: the router dispatches on ProposalType() of the same content, so the dynamic type matches", []);
-  ("x/collectives.ApplyCollectiveRemoveProposalHandler.Quorum", "assert", 1%nat, "proposal content assertion inside its own handler: the router dispatches on ProposalType() of the same content, so the dynamic type matches", []);
-  ("x/collectives.ApplyCollectiveRemoveProposalHandler.VoteEnactment", "assert", 1%nat, "proposal content assertion inside its own handler: the router dispatches on ProposalType() of the same content, so the dynamic type matches", []);
-  ("x/collectives.ApplyCollectiveRemoveProposalHandler.VotePeriod", "assert", 1%nat, "proposal content assertion inside its own handler: the router dispatches on ProposalType() of the same content, so the dynamic type matches", []);
-  ("x/collectives.ApplyCollectiveSendDonationProposalHandler.AllowedAddresses", "assert", 1%nat, "proposal content assertion inside its own handler: the router dispatches on ProposalType() of the same content, so the dynamic type matches", []);
-  ("x/collectives.ApplyCollectiveSendDonationProposalHandler.Apply", "assert", 1%nat, "proposal content assertion inside its own handler: the router dispatches on ProposalType() of the same content, so the dynamic type matches", []);
-  ("x/collectives.ApplyCollectiveSendDonationProposalHandler.IsAllowedAddress", "assert", 1%nat, "proposal content assertion inside its own handler: the router dispatches on ProposalType() of the same content, so the dynamic type matches", []);
-  ("x/collectives.ApplyCollectiveSendDonationProposalHandler.Quorum", "assert", 1%nat, "proposal content assertion inside its own handler: the router dispatches on ProposalType() of the same content, so the dynamic type matches", []);
-  ("x/collectives.ApplyCollectiveSendDonationProposalHandler.VoteEnactment", "assert", 1%nat, "proposal content assertion inside its own handler: the router dispatches on ProposalType() of the same content, so the dynamic type matches", []);
-  ("x/collectives.ApplyCollectiveSendDonationProposalHandler.VotePeriod", "assert", 1%nat, "proposal content assertion inside its own handler: the router dispatches on ProposalType() of the same content, so the dynamic type matches", []);
-  ("x/collectives.ApplyCollectiveUpdateProposalHandler.AllowedAddresses", "assert", 1%nat, "proposal content assertion inside its own handler: the router dispatches on ProposalType() of the same content, so the dynamic type matches", []);
-  ("x/collectives.ApplyCollectiveUpdateProposalHandler.Apply", "assert", 1%nat, "proposal content assertion inside its own handler: the router dispatches on ProposalType() of the same content, so the dynamic type matches", []);
-  ("x/collectives.ApplyCollectiveUpdateProposalHandler.IsAllowedAddress", "assert", 1%nat, "proposal content assertion inside its own handler: the router dispatches on ProposalType() of the same content, so the dynamic type matches", []);
-  ("x/collectives.ApplyCollectiveUpdateProposalHandler.Quorum", "assert", 1%nat, "proposal content assertion inside its own handler: the router dispatches on ProposalType() of the same content, so the dynamic type matches", []);
-  ("x/collectives.ApplyCollectiveUpdateProposalHandler.VoteEnactment", "assert", 1%nat, "proposal content assertion inside its own handler: the router dispatches on ProposalType() of the same content, so the dynamic type matches", []);
-  ("x/collectives.ApplyCollectiveUpdateProposalHandler.VotePeriod", "assert", 1%nat, "proposal content assertion inside its own handler: the router dispatches on ProposalType() of the same content, so the dynamic type matches", []);
+  ("x/collectives.ApplyCollectiveRemoveProposalHandler.AllowedAddresses", "assert", 1%nat, "proposal content assertion inside its own handler: the router dispatches on ProposalType() of the same content, so the dynamic type matches", ["b70eaf99d9962923"]);
+  ("x/collectives.ApplyCollectiveRemoveProposalHandler.Apply", "assert", 1%nat, "proposal content assertion inside its own handler: the router dispatches on ProposalType() of the same content, so the dynamic type matches", ["0af9d78ca9e35f48"]);
+  ("x/collectives.ApplyCollectiveRemoveProposalHandler.IsAllowedAddress", "assert", 1%nat, "proposal content assertion inside its own handler: the router dispatches on ProposalType() of the same content, so the dynamic type matches", ["ea8e9166b6cad473"]);
+  ("x/collectives.ApplyCollectiveRemoveProposalHandler.Quorum", "assert", 1%nat, "proposal content assertion inside its own handler: the router dispatches on ProposalType() of the same content, so the dynamic type matches", ["19683e04ad84ba21"]);
+  ("x/collectives.ApplyCollectiveRemoveProposalHandler.VoteEnactment", "assert", 1%nat, "proposal content assertion inside its own handler: the router dispatches on ProposalType() of the same content, so the dynamic type matches", ["74ca6f425bf29c67"]);
+  ("x/collectives.ApplyCollectiveRemoveProposalHandler.VotePeriod", "assert", 1%nat, "proposal content assertion inside its own handler: the router dispatches on ProposalType() of the same content, so the dynamic type matches", ["db8cdb81db24d612"]);
+  ("x/collectives.ApplyCollectiveSendDonationProposalHandler.AllowedAddresses", "assert", 1%nat, "proposal content assertion inside its own handler: the router dispatches on ProposalType() of the same content, so the dynamic type matches", ["09ac3c4366dfeeba"]);
+  ("x/collectives.ApplyCollectiveSendDonationProposalHandler.Apply", "assert", 1%nat, "proposal content assertion inside its own handler: the router dispatches on ProposalType() of the same content, so the dynamic type matches", ["b691c632a5c17744"]);
+  ("x/collectives.ApplyCollectiveSendDonationProposalHandler.IsAllowedAddress", "assert", 1%nat, "proposal content assertion inside its own handler: the router dispatches on ProposalType() of the same content, so the dynamic type matches", ["cace4f1c8a1688ec"]);
+  ("x/collectives.ApplyCollectiveSendDonationProposalHandler.Quorum", "assert", 1%nat, "proposal content assertion inside its own handler: the router dispatches on ProposalType() of the same content, so the dynamic type matches", ["c79bd528ded84957"]);
+  ("x/collectives.ApplyCollectiveSendDonationProposalHandler.VoteEnactment", "assert", 1%nat, "proposal content assertion inside its own handler: the router dispatches on ProposalType() of the same content, so the dynamic type matches", ["af2e8e86d590caf6"]);
+  ("x/collectives.ApplyCollectiveSendDonationProposalHandler.VotePeriod", "assert", 1%nat, "proposal content assertion inside its own handler: the router dispatches on ProposalType() of the same content, so the dynamic type matches", ["140d138a25fcd5b7"]);
+  ("x/collectives.ApplyCollectiveUpdateProposalHandler.AllowedAddresses", "assert", 1%nat, "proposal content assertion inside its own handler: the router dispatches on ProposalType() of the same content, so the dynamic type matches", ["855abeb5c6fe8807"]);
+  ("x/collectives.ApplyCollectiveUpdateProposalHandler.Apply", "assert", 1%nat, "proposal content assertion inside its own handler: the router dispatches on ProposalType() of the same content, so the dynamic type matches", ["0f6d8067d3db9d3c"]);
+  ("x/collectives.ApplyCollectiveUpdateProposalHandler.IsAllowedAddress", "assert", 1%nat, "proposal content assertion inside its own handler: the router dispatches on ProposalType() of the same content, so the dynamic type matches", ["d8206d0d191017a0"]);
+  ("x/collectives.ApplyCollectiveUpdateProposalHandler.Quorum", "assert", 1%nat, "proposal content assertion inside its own handler: the router dispatches on ProposalType() of the same content, so the dynamic type matches", ["ddae49cafce119ed"]);
+  ("x/collectives.ApplyCollectiveUpdateProposalHandler.VoteEnactment", "assert", 1%nat, "proposal content assertion inside its own handler: the router dispatches on ProposalType() of the same content, so the dynamic type matches", ["0637db3e7f786579"]);
+  ("x/collectives.ApplyCollectiveUpdateProposalHandler.VotePeriod", "assert", 1%nat, "proposal content assertion inside its own handler: the router dispatches on ProposalType() of the same content, so the dynamic type matches", ["b6a8398f181116db"]);
   ("x/collectives/keeper.Keeper.AllowedAddresses", "index", 4%nat, "map lookup or index bounded by the enclosing loop / length check", ["0b9ec4d125f4c03f"]);
-  ("x/collectives/keeper.Keeper.GetAllCollectives", "must", 1%nat, "decodes bytes (or re-parses an address) that this module stored itself with the matching Marshal -- audited by kind", []);
-  ("x/collectives/keeper.Keeper.GetCollective", "must", 1%nat, "decodes bytes (or re-parses an address) that this module stored itself with the matching Marshal -- audited by kind", []);
-  ("x/collectives/keeper.Keeper.GetCollectiveContributer", "must", 1%nat, "decodes bytes (or re-parses an address) that this module stored itself with the matching Marshal -- audited by kind", []);
-  ("x/collectives/keeper.Keeper.GetCollectiveContributers", "must", 1%nat, "decodes bytes (or re-parses an address) that this module stored itself with the matching Marshal -- audited by kind", []);
+  ("x/collectives/keeper.Keeper.GetAllCollectives", "must", 1%nat, "decodes bytes (or re-parses an address) that this module stored itself with the matching Marshal -- audited by kind", ["085a53e184bcdc35"]);
+  ("x/collectives/keeper.Keeper.GetCollective", "must", 1%nat, "decodes bytes (or re-parses an address) that this module stored itself with the matching Marshal -- audited by kind", ["00cbe11fd65175e3"]);
+  ("x/collectives/keeper.Keeper.GetCollectiveContributer", "must", 1%nat, "decodes bytes (or re-parses an address) that this module stored itself with the matching Marshal -- audited by kind", ["8c83e9fa930ff6d3"]);
+  ("x/collectives/keeper.Keeper.GetCollectiveContributers", "must", 1%nat, "decodes bytes (or re-parses an address) that this module stored itself with the matching Marshal -- audited by kind", ["dd7faf61ce33af48"]);
   ("x/collectives/keeper.Keeper.IsAllowedAddress", "index", 2%nat, "map lookup or index bounded by the enclosing loop / length check", ["e9b62f7e6811bcd1"]);
   ("x/collectives/keeper.Keeper.SendDonation", "sub", 1%nat, "sdk.Int / time subtraction or Coins.Sub guarded by an error-returning balance check before it", ["9c668a1e14930919"]);
-  ("x/collectives/keeper.Keeper.SetCollective", "must", 1%nat, "decodes bytes (or re-parses an address) that this module stored itself with the matching Marshal -- audited by kind", []);
-  ("x/collectives/keeper.Keeper.WithdrawCollective", "must", 1%nat, "decodes bytes (or re-parses an address) that this module stored itself with the matching Marshal -- audited by kind", []);
+  ("x/collectives/keeper.Keeper.SetCollective", "must", 1%nat, "decodes bytes (or re-parses an address) that this module stored itself with the matching Marshal -- audited by kind", ["d010ef1d56832109"]);
+  ("x/collectives/keeper.Keeper.WithdrawCollective", "must", 1%nat, "decodes bytes (or re-parses an address) that this module stored itself with the matching Marshal -- audited by kind", ["b96fa395ac90967b"]);
   ("x/collectives/keeper.Keeper.WithdrawCollective", "sub", 3%nat, "sdk.Int / time subtraction or Coins.Sub guarded by an error-returning balance check before it", ["b96fa395ac90967b"]);
   ("x/collectives/keeper.calcPortion", "newcoin", 1%nat, "amount is a product/fraction of non-negative stored amounts; denom validated at creation", ["ad8967f7d6583c04"]);
   ("x/distributor/keeper.Keeper.AllocateTokens", "sub", 4%nat, "guarded by IsAllGTE / sdk.Int.Sub does not panic", ["c0e9761d3225cd13"]);
@@ -271,82 +284,82 @@ Definition audit_table : list (string * string * nat * string * list string) := 
   ("x/distributor/keeper.Keeper.AllocateTokens", "panic", 2%nat, "unreachable: minting to the mint module / transfer of the amount just minted", ["c0e9761d3225cd13"]);
   ("x/distributor/keeper.Keeper.BeginBlocker", "panic", 1%nat, "unreachable: ConsAddr strings written by SetValidatorVote itself", ["d20f5b2159893cae"]);
   ("x/distributor/keeper.Keeper.GetFeesTreasury", "panic", 1%nat, "unreachable: parses the string written by SetFeesTreasury", ["0172156421030cf3"]);
-  ("x/distributor/keeper.Keeper.GetPeriodicSnapshot", "must", 1%nat, "decodes bytes (or re-parses an address) that this module stored itself with the matching Marshal -- audited by kind", []);
+  ("x/distributor/keeper.Keeper.GetPeriodicSnapshot", "must", 1%nat, "decodes bytes (or re-parses an address) that this module stored itself with the matching Marshal -- audited by kind", ["c90d544c3fbaf2fe"]);
   ("x/distributor/keeper.Keeper.GetPreviousProposerConsAddr", "panic", 1%nat, "unreachable after height 1 (set in every BeginBlock); an import at initial height > 1 without the key: C12", ["ed1655397e46c3fe"]);
-  ("x/distributor/keeper.Keeper.GetYearStartSnapshot", "must", 1%nat, "decodes bytes (or re-parses an address) that this module stored itself with the matching Marshal -- audited by kind", []);
+  ("x/distributor/keeper.Keeper.GetYearStartSnapshot", "must", 1%nat, "decodes bytes (or re-parses an address) that this module stored itself with the matching Marshal -- audited by kind", ["b2eb560eed60e941"]);
   ("x/distributor/keeper.Keeper.InflationPossible", "div", 1%nat, "literal divisor arithmetic on constants", ["a3541ac22d30b54c"]);
   ("x/distributor/keeper.Keeper.InflationPossible", "sub", 1%nat, "sdk.Int/Dec Sub: no panic", ["a3541ac22d30b54c"]);
   ("x/distributor/keeper.Keeper.InflationPossible", "quo", 1%nat, "guarded by the zero-supply check above it", ["a3541ac22d30b54c"]);
-  ("x/distributor/keeper.Keeper.SetPeriodicSnapshot", "must", 1%nat, "decodes bytes (or re-parses an address) that this module stored itself with the matching Marshal -- audited by kind", []);
-  ("x/distributor/keeper.Keeper.SetYearStartSnapshot", "must", 1%nat, "decodes bytes (or re-parses an address) that this module stored itself with the matching Marshal -- audited by kind", []);
-  ("x/evidence.BeginBlocker", "assert", 1%nat, "proposal content assertion inside its own handler: the router dispatches on ProposalType() of the same content, so the dynamic type matches", []);
-  ("x/evidence/keeper.Keeper.GetEvidence", "must", 1%nat, "decodes bytes (or re-parses an address) that this module stored itself with the matching Marshal -- audited by kind", []);
+  ("x/distributor/keeper.Keeper.SetPeriodicSnapshot", "must", 1%nat, "decodes bytes (or re-parses an address) that this module stored itself with the matching Marshal -- audited by kind", ["7a5ee28a2050ce70"]);
+  ("x/distributor/keeper.Keeper.SetYearStartSnapshot", "must", 1%nat, "decodes bytes (or re-parses an address) that this module stored itself with the matching Marshal -- audited by kind", ["6e4a3ddfa3e0246e"]);
+  ("x/evidence.BeginBlocker", "assert", 1%nat, "proposal content assertion inside its own handler: the router dispatches on ProposalType() of the same content, so the dynamic type matches", ["f0bd1092e019a9b7"]);
+  ("x/evidence/keeper.Keeper.GetEvidence", "must", 1%nat, "decodes bytes (or re-parses an address) that this module stored itself with the matching Marshal -- audited by kind", ["6e86a0e171e8578a"]);
   ("x/evidence/keeper.Keeper.HandleEquivocationEvidence", "sub", 1%nat, "time.Sub: no panic", ["c34d6b2e85a9d21f"]);
   ("x/evidence/keeper.Keeper.HandleEquivocationEvidence", "panic", 1%nat, "unreachable: signing info is created when the validator joins (AfterValidatorJoined hook)", ["c34d6b2e85a9d21f"]);
   ("x/evidence/keeper.Keeper.MustMarshalEvidence", "panic", 1%nat, "unreachable: guards a store / codec invariant (record written together with its index)", ["291d07486925668f"]);
-  ("x/evidence/keeper.Keeper.SetEvidence", "must", 1%nat, "decodes bytes (or re-parses an address) that this module stored itself with the matching Marshal -- audited by kind", []);
+  ("x/evidence/keeper.Keeper.SetEvidence", "must", 1%nat, "decodes bytes (or re-parses an address) that this module stored itself with the matching Marshal -- audited by kind", ["3ab6eeb4f34d2130"]);
   ("x/evidence/types.Equivocation.Hash", "panic", 1%nat, "unreachable: guards a store / codec invariant (record written together with its index)", ["73121bb46c56a335"]);
   ("x/evidence/types.FromABCIEvidence", "panic", 1%nat, "unreachable: guards a store / codec invariant (record written together with its index)", ["0df4eb387dff7d3c"]);
   ("x/feeprocessing/keeper.Keeper.ProcessExecutionFeeReturn", "newcoin", 1%nat, "amount is a product/fraction of non-negative stored amounts; denom validated at creation", ["7b1d547a1ad857eb"]);
   ("x/feeprocessing/keeper.Keeper.SendCoinsFromModuleToAccount", "sub", 2%nat, "sdk.Int / time subtraction or Coins.Sub guarded by an error-returning balance check before it", ["5a3352bf0bc8d2b5"]);
   ("x/feeprocessing/keeper.Keeper.SendCoinsFromModuleToAccount", "newcoin", 1%nat, "amount is a product/fraction of non-negative stored amounts; denom validated at creation", ["5a3352bf0bc8d2b5"]);
-  ("x/gov.ApplyAssignRoleToAccountProposalHandler.Apply", "assert", 1%nat, "proposal content assertion inside its own handler: the router dispatches on ProposalType() of the same content, so the dynamic type matches", []);
-  ("x/gov.ApplyBlacklistAccountPermissionProposalHandler.Apply", "assert", 1%nat, "proposal content assertion inside its own handler: the router dispatches on ProposalType() of the same content, so the dynamic type matches", []);
-  ("x/gov.ApplyBlacklistRolePermissionProposalHandler.Apply", "assert", 1%nat, "proposal content assertion inside its own handler: the router dispatches on ProposalType() of the same content, so the dynamic type matches", []);
-  ("x/gov.ApplyJailCouncilorProposalHandler.Apply", "assert", 1%nat, "proposal content assertion inside its own handler: the router dispatches on ProposalType() of the same content, so the dynamic type matches", []);
-  ("x/gov.ApplyRemoveBlacklistedAccountPermissionProposalHandler.Apply", "assert", 1%nat, "proposal content assertion inside its own handler: the router dispatches on ProposalType() of the same content, so the dynamic type matches", []);
-  ("x/gov.ApplyRemoveBlacklistedRolePermissionProposalHandler.Apply", "assert", 1%nat, "proposal content assertion inside its own handler: the router dispatches on ProposalType() of the same content, so the dynamic type matches", []);
-  ("x/gov.ApplyRemoveRoleProposalHandler.Apply", "assert", 1%nat, "proposal content assertion inside its own handler: the router dispatches on ProposalType() of the same content, so the dynamic type matches", []);
-  ("x/gov.ApplyRemoveWhitelistedAccountPermissionProposalHandler.Apply", "assert", 1%nat, "proposal content assertion inside its own handler: the router dispatches on ProposalType() of the same content, so the dynamic type matches", []);
-  ("x/gov.ApplyRemoveWhitelistedRolePermissionProposalHandler.Apply", "assert", 1%nat, "proposal content assertion inside its own handler: the router dispatches on ProposalType() of the same content, so the dynamic type matches", []);
-  ("x/gov.ApplyResetWholeCouncilorRankProposalHandler.Apply", "assert", 1%nat, "proposal content assertion inside its own handler: the router dispatches on ProposalType() of the same content, so the dynamic type matches", []);
-  ("x/gov.ApplySetExecutionFeesHandler.Apply", "assert", 1%nat, "proposal content assertion inside its own handler: the router dispatches on ProposalType() of the same content, so the dynamic type matches", []);
-  ("x/gov.ApplySetNetworkPropertyProposalHandler.Apply", "assert", 1%nat, "proposal content assertion inside its own handler: the router dispatches on ProposalType() of the same content, so the dynamic type matches", []);
-  ("x/gov.ApplySetPoorNetworkMessagesProposalHandler.Apply", "assert", 1%nat, "proposal content assertion inside its own handler: the router dispatches on ProposalType() of the same content, so the dynamic type matches", []);
-  ("x/gov.ApplyUnassignRoleFromAccountProposalHandler.Apply", "assert", 1%nat, "proposal content assertion inside its own handler: the router dispatches on ProposalType() of the same content, so the dynamic type matches", []);
-  ("x/gov.ApplyUpsertDataRegistryProposalHandler.Apply", "assert", 1%nat, "proposal content assertion inside its own handler: the router dispatches on ProposalType() of the same content, so the dynamic type matches", []);
-  ("x/gov.ApplyWhitelistAccountPermissionProposalHandler.Apply", "assert", 1%nat, "proposal content assertion inside its own handler: the router dispatches on ProposalType() of the same content, so the dynamic type matches", []);
-  ("x/gov.ApplyWhitelistRolePermissionProposalHandler.Apply", "assert", 1%nat, "proposal content assertion inside its own handler: the router dispatches on ProposalType() of the same content, so the dynamic type matches", []);
-  ("x/gov.CreateRoleProposalHandler.Apply", "assert", 1%nat, "proposal content assertion inside its own handler: the router dispatches on ProposalType() of the same content, so the dynamic type matches", []);
-  ("x/gov.SetProposalDurationsProposalHandler.Apply", "assert", 1%nat, "proposal content assertion inside its own handler: the router dispatches on ProposalType() of the same content, so the dynamic type matches", []);
+  ("x/gov.ApplyAssignRoleToAccountProposalHandler.Apply", "assert", 1%nat, "proposal content assertion inside its own handler: the router dispatches on ProposalType() of the same content, so the dynamic type matches", ["b64f0161a7a7c11c"]);
+  ("x/gov.ApplyBlacklistAccountPermissionProposalHandler.Apply", "assert", 1%nat, "proposal content assertion inside its own handler: the router dispatches on ProposalType() of the same content, so the dynamic type matches", ["0d66e9e85976dc59"]);
+  ("x/gov.ApplyBlacklistRolePermissionProposalHandler.Apply", "assert", 1%nat, "proposal content assertion inside its own handler: the router dispatches on ProposalType() of the same content, so the dynamic type matches", ["fd3e4818d5e61b12"]);
+  ("x/gov.ApplyJailCouncilorProposalHandler.Apply", "assert", 1%nat, "proposal content assertion inside its own handler: the router dispatches on ProposalType() of the same content, so the dynamic type matches", ["e91a8e54f4f2d7b0"]);
+  ("x/gov.ApplyRemoveBlacklistedAccountPermissionProposalHandler.Apply", "assert", 1%nat, "proposal content assertion inside its own handler: the router dispatches on ProposalType() of the same content, so the dynamic type matches", ["1408e35e53220acf"]);
+  ("x/gov.ApplyRemoveBlacklistedRolePermissionProposalHandler.Apply", "assert", 1%nat, "proposal content assertion inside its own handler: the router dispatches on ProposalType() of the same content, so the dynamic type matches", ["7d28d758bfa46e2a"]);
+  ("x/gov.ApplyRemoveRoleProposalHandler.Apply", "assert", 1%nat, "proposal content assertion inside its own handler: the router dispatches on ProposalType() of the same content, so the dynamic type matches", ["24b45cbb84f9b0f3"]);
+  ("x/gov.ApplyRemoveWhitelistedAccountPermissionProposalHandler.Apply", "assert", 1%nat, "proposal content assertion inside its own handler: the router dispatches on ProposalType() of the same content, so the dynamic type matches", ["8755bd5fb3687374"]);
+  ("x/gov.ApplyRemoveWhitelistedRolePermissionProposalHandler.Apply", "assert", 1%nat, "proposal content assertion inside its own handler: the router dispatches on ProposalType() of the same content, so the dynamic type matches", ["d3a5904574a2e5ff"]);
+  ("x/gov.ApplyResetWholeCouncilorRankProposalHandler.Apply", "assert", 1%nat, "proposal content assertion inside its own handler: the router dispatches on ProposalType() of the same content, so the dynamic type matches", ["8e90546965178427"]);
+  ("x/gov.ApplySetExecutionFeesHandler.Apply", "assert", 1%nat, "proposal content assertion inside its own handler: the router dispatches on ProposalType() of the same content, so the dynamic type matches", ["bf6da9761a23504a"]);
+  ("x/gov.ApplySetNetworkPropertyProposalHandler.Apply", "assert", 1%nat, "proposal content assertion inside its own handler: the router dispatches on ProposalType() of the same content, so the dynamic type matches", ["5d16299f89b8b5d7"]);
+  ("x/gov.ApplySetPoorNetworkMessagesProposalHandler.Apply", "assert", 1%nat, "proposal content assertion inside its own handler: the router dispatches on ProposalType() of the same content, so the dynamic type matches", ["ab3bce3852dd5801"]);
+  ("x/gov.ApplyUnassignRoleFromAccountProposalHandler.Apply", "assert", 1%nat, "proposal content assertion inside its own handler: the router dispatches on ProposalType() of the same content, so the dynamic type matches", ["83c22d570f74e443"]);
+  ("x/gov.ApplyUpsertDataRegistryProposalHandler.Apply", "assert", 1%nat, "proposal content assertion inside its own handler: the router dispatches on ProposalType() of the same content, so the dynamic type matches", ["90a70e035d2b5cc0"]);
+  ("x/gov.ApplyWhitelistAccountPermissionProposalHandler.Apply", "assert", 1%nat, "proposal content assertion inside its own handler: the router dispatches on ProposalType() of the same content, so the dynamic type matches", ["133fbd02a82514b9"]);
+  ("x/gov.ApplyWhitelistRolePermissionProposalHandler.Apply", "assert", 1%nat, "proposal content assertion inside its own handler: the router dispatches on ProposalType() of the same content, so the dynamic type matches", ["b7d23396737413d9"]);
+  ("x/gov.CreateRoleProposalHandler.Apply", "assert", 1%nat, "proposal content assertion inside its own handler: the router dispatches on ProposalType() of the same content, so the dynamic type matches", ["a8cb1ef56af97609"]);
+  ("x/gov.SetProposalDurationsProposalHandler.Apply", "assert", 1%nat, "proposal content assertion inside its own handler: the router dispatches on ProposalType() of the same content, so the dynamic type matches", ["0e6b459a73be2ba8"]);
   ("x/gov.SetProposalDurationsProposalHandler.Apply", "index", 1%nat, "map lookup or index bounded by the enclosing loop / length check", ["0e6b459a73be2ba8"]);
   ("x/gov.processEnactmentProposal", "panic", 1%nat, "unreachable: enactment queue entries are written with the proposal; proposals are never deleted", ["33eaf5d42df66f8d"]);
   ("x/gov.processPoll", "index", 1%nat, "map lookup or index bounded by the enclosing loop / length check", ["6a3c84943a00324c"]);
   ("x/gov.processProposal", "index", 2%nat, "map lookup or index bounded by the enclosing loop / length check", ["8627ca39f0fbd1bc"]);
   ("x/gov/keeper.CheckIfAllowedPermission", "index", 4%nat, "map lookup or index bounded by the enclosing loop / length check", ["452c333de081d1b3"]);
-  ("x/gov/keeper.Keeper.BlacklistRolePermission", "must", 1%nat, "decodes bytes (or re-parses an address) that this module stored itself with the matching Marshal -- audited by kind", []);
+  ("x/gov/keeper.Keeper.BlacklistRolePermission", "must", 1%nat, "decodes bytes (or re-parses an address) that this module stored itself with the matching Marshal -- audited by kind", ["563ce97cb08bc0d6"]);
   ("x/gov/keeper.Keeper.EnsureOldUniqueKeysNotRemoved", "index", 2%nat, "map lookup or index bounded by the enclosing loop / length check", ["651239798ba4401d"]);
   ("x/gov/keeper.Keeper.EnsureUniqueKeys", "index", 6%nat, "map lookup or index bounded by the enclosing loop / length check", ["dc3961420029da15"]);
-  ("x/gov/keeper.Keeper.GetAllCouncilors", "must", 1%nat, "decodes bytes (or re-parses an address) that this module stored itself with the matching Marshal -- audited by kind", []);
-  ("x/gov/keeper.Keeper.GetAllIdentityRecords", "must", 1%nat, "decodes bytes (or re-parses an address) that this module stored itself with the matching Marshal -- audited by kind", []);
+  ("x/gov/keeper.Keeper.GetAllCouncilors", "must", 1%nat, "decodes bytes (or re-parses an address) that this module stored itself with the matching Marshal -- audited by kind", ["c6b57c1c2b348776"]);
+  ("x/gov/keeper.Keeper.GetAllIdentityRecords", "must", 1%nat, "decodes bytes (or re-parses an address) that this module stored itself with the matching Marshal -- audited by kind", ["57fc203f30e5952c"]);
   ("x/gov/keeper.Keeper.GetAverageVotesSlash", "quo", 1%nat, "guarded: returns zero when there is no Yes vote (totalCount == 0) before dividing by the Yes-vote count; exercised by the gov-vote-patterns histories (every vote pattern, run past the enactment end)", ["b15566c2f50370ff"]);
-  ("x/gov/keeper.Keeper.GetExecutionFee", "must", 1%nat, "decodes bytes (or re-parses an address) that this module stored itself with the matching Marshal -- audited by kind", []);
-  ("x/gov/keeper.Keeper.GetNetworkActorByAddress", "must", 1%nat, "decodes bytes (or re-parses an address) that this module stored itself with the matching Marshal -- audited by kind", []);
+  ("x/gov/keeper.Keeper.GetExecutionFee", "must", 1%nat, "decodes bytes (or re-parses an address) that this module stored itself with the matching Marshal -- audited by kind", ["fb0366212ba58bd0"]);
+  ("x/gov/keeper.Keeper.GetNetworkActorByAddress", "must", 1%nat, "decodes bytes (or re-parses an address) that this module stored itself with the matching Marshal -- audited by kind", ["a6034344f4445b9f"]);
   ("x/gov/keeper.Keeper.GetNetworkActorOrFail", "panic", 1%nat, "unreachable: permission/role index entries are written and removed together with the actor record (C07 refinement)", ["3368f8be08283503"]);
   ("x/gov/keeper.Keeper.GetNetworkActorsByAbsoluteWhitelistPermission", "index", 2%nat, "map lookup or index bounded by the enclosing loop / length check", ["b939a5d0ed92fdf9"]);
-  ("x/gov/keeper.Keeper.GetNetworkProperties", "must", 1%nat, "decodes bytes (or re-parses an address) that this module stored itself with the matching Marshal -- audited by kind", []);
-  ("x/gov/keeper.Keeper.GetPermissionsForRole", "must", 1%nat, "decodes bytes (or re-parses an address) that this module stored itself with the matching Marshal -- audited by kind", []);
-  ("x/gov/keeper.Keeper.GetPoll", "must", 1%nat, "decodes bytes (or re-parses an address) that this module stored itself with the matching Marshal -- audited by kind", []);
-  ("x/gov/keeper.Keeper.GetPollVotes", "must", 1%nat, "decodes bytes (or re-parses an address) that this module stored itself with the matching Marshal -- audited by kind", []);
-  ("x/gov/keeper.Keeper.GetProposal", "must", 1%nat, "decodes bytes (or re-parses an address) that this module stored itself with the matching Marshal -- audited by kind", []);
-  ("x/gov/keeper.Keeper.GetProposalVotes", "must", 1%nat, "decodes bytes (or re-parses an address) that this module stored itself with the matching Marshal -- audited by kind", []);
-  ("x/gov/keeper.Keeper.GetProposals", "must", 1%nat, "decodes bytes (or re-parses an address) that this module stored itself with the matching Marshal -- audited by kind", []);
-  ("x/gov/keeper.Keeper.GetVotes", "must", 1%nat, "decodes bytes (or re-parses an address) that this module stored itself with the matching Marshal -- audited by kind", []);
-  ("x/gov/keeper.Keeper.RemoveBlacklistRolePermission", "must", 1%nat, "decodes bytes (or re-parses an address) that this module stored itself with the matching Marshal -- audited by kind", []);
-  ("x/gov/keeper.Keeper.RemoveWhitelistRolePermission", "must", 1%nat, "decodes bytes (or re-parses an address) that this module stored itself with the matching Marshal -- audited by kind", []);
-  ("x/gov/keeper.Keeper.SaveCouncilor", "must", 1%nat, "decodes bytes (or re-parses an address) that this module stored itself with the matching Marshal -- audited by kind", []);
-  ("x/gov/keeper.Keeper.SaveNetworkActor", "must", 1%nat, "decodes bytes (or re-parses an address) that this module stored itself with the matching Marshal -- audited by kind", []);
-  ("x/gov/keeper.Keeper.SavePoll", "must", 1%nat, "decodes bytes (or re-parses an address) that this module stored itself with the matching Marshal -- audited by kind", []);
-  ("x/gov/keeper.Keeper.SavePoorNetworkMessages", "must", 1%nat, "decodes bytes (or re-parses an address) that this module stored itself with the matching Marshal -- audited by kind", []);
-  ("x/gov/keeper.Keeper.SaveProposal", "must", 1%nat, "decodes bytes (or re-parses an address) that this module stored itself with the matching Marshal -- audited by kind", []);
-  ("x/gov/keeper.Keeper.SetExecutionFee", "must", 1%nat, "decodes bytes (or re-parses an address) that this module stored itself with the matching Marshal -- audited by kind", []);
-  ("x/gov/keeper.Keeper.SetNetworkProperties", "must", 1%nat, "decodes bytes (or re-parses an address) that this module stored itself with the matching Marshal -- audited by kind", []);
+  ("x/gov/keeper.Keeper.GetNetworkProperties", "must", 1%nat, "decodes bytes (or re-parses an address) that this module stored itself with the matching Marshal -- audited by kind", ["0f5cfad58d8cfa37"]);
+  ("x/gov/keeper.Keeper.GetPermissionsForRole", "must", 1%nat, "decodes bytes (or re-parses an address) that this module stored itself with the matching Marshal -- audited by kind", ["37832a867beaeb33"]);
+  ("x/gov/keeper.Keeper.GetPoll", "must", 1%nat, "decodes bytes (or re-parses an address) that this module stored itself with the matching Marshal -- audited by kind", ["10c6ee09d00df8fc"]);
+  ("x/gov/keeper.Keeper.GetPollVotes", "must", 1%nat, "decodes bytes (or re-parses an address) that this module stored itself with the matching Marshal -- audited by kind", ["d571d0eb5df8cb2e"]);
+  ("x/gov/keeper.Keeper.GetProposal", "must", 1%nat, "decodes bytes (or re-parses an address) that this module stored itself with the matching Marshal -- audited by kind", ["7b8dca264e85010e"]);
+  ("x/gov/keeper.Keeper.GetProposalVotes", "must", 1%nat, "decodes bytes (or re-parses an address) that this module stored itself with the matching Marshal -- audited by kind", ["84f8d04248b5f8c3"]);
+  ("x/gov/keeper.Keeper.GetProposals", "must", 1%nat, "decodes bytes (or re-parses an address) that this module stored itself with the matching Marshal -- audited by kind", ["8dcb56a687b33184"]);
+  ("x/gov/keeper.Keeper.GetVotes", "must", 1%nat, "decodes bytes (or re-parses an address) that this module stored itself with the matching Marshal -- audited by kind", ["720be611bdd68fed"]);
+  ("x/gov/keeper.Keeper.RemoveBlacklistRolePermission", "must", 1%nat, "decodes bytes (or re-parses an address) that this module stored itself with the matching Marshal -- audited by kind", ["b8b7dc0867bf1d46"]);
+  ("x/gov/keeper.Keeper.RemoveWhitelistRolePermission", "must", 1%nat, "decodes bytes (or re-parses an address) that this module stored itself with the matching Marshal -- audited by kind", ["2e56ec231a997c96"]);
+  ("x/gov/keeper.Keeper.SaveCouncilor", "must", 1%nat, "decodes bytes (or re-parses an address) that this module stored itself with the matching Marshal -- audited by kind", ["bc3e2c659c192c00"]);
+  ("x/gov/keeper.Keeper.SaveNetworkActor", "must", 1%nat, "decodes bytes (or re-parses an address) that this module stored itself with the matching Marshal -- audited by kind", ["2ca5e28127aa7093"]);
+  ("x/gov/keeper.Keeper.SavePoll", "must", 1%nat, "decodes bytes (or re-parses an address) that this module stored itself with the matching Marshal -- audited by kind", ["51ac79388eafc64c"]);
+  ("x/gov/keeper.Keeper.SavePoorNetworkMessages", "must", 1%nat, "decodes bytes (or re-parses an address) that this module stored itself with the matching Marshal -- audited by kind", ["033fa78baff32c1f"]);
+  ("x/gov/keeper.Keeper.SaveProposal", "must", 1%nat, "decodes bytes (or re-parses an address) that this module stored itself with the matching Marshal -- audited by kind", ["b9599013578647cb"]);
+  ("x/gov/keeper.Keeper.SetExecutionFee", "must", 1%nat, "decodes bytes (or re-parses an address) that this module stored itself with the matching Marshal -- audited by kind", ["de4b23140bff2b43"]);
+  ("x/gov/keeper.Keeper.SetNetworkProperties", "must", 1%nat, "decodes bytes (or re-parses an address) that this module stored itself with the matching Marshal -- audited by kind", ["221d70107781858f"]);
   ("x/gov/keeper.Keeper.SetRole", "panic", 1%nat, "unreachable: guards a store / codec invariant (record written together with its index)", ["a13280216693adf8"]);
-  ("x/gov/keeper.Keeper.UpsertDataRegistryEntry", "must", 1%nat, "decodes bytes (or re-parses an address) that this module stored itself with the matching Marshal -- audited by kind", []);
-  ("x/gov/keeper.Keeper.WhitelistRolePermission", "must", 1%nat, "decodes bytes (or re-parses an address) that this module stored itself with the matching Marshal -- audited by kind", []);
-  ("x/gov/keeper.Keeper.getCouncilorByKey", "must", 1%nat, "decodes bytes (or re-parses an address) that this module stored itself with the matching Marshal -- audited by kind", []);
-  ("x/gov/keeper.Keeper.savePermissionsForRole", "must", 1%nat, "decodes bytes (or re-parses an address) that this module stored itself with the matching Marshal -- audited by kind", []);
-  ("x/gov/keeper.ValidateRoleSidKey", "must", 1%nat, "decodes bytes (or re-parses an address) that this module stored itself with the matching Marshal -- audited by kind", []);
+  ("x/gov/keeper.Keeper.UpsertDataRegistryEntry", "must", 1%nat, "decodes bytes (or re-parses an address) that this module stored itself with the matching Marshal -- audited by kind", ["d6af8d050b801a65"]);
+  ("x/gov/keeper.Keeper.WhitelistRolePermission", "must", 1%nat, "decodes bytes (or re-parses an address) that this module stored itself with the matching Marshal -- audited by kind", ["b1c2c1d88da7ff38"]);
+  ("x/gov/keeper.Keeper.getCouncilorByKey", "must", 1%nat, "decodes bytes (or re-parses an address) that this module stored itself with the matching Marshal -- audited by kind", ["84670240aa8df90a"]);
+  ("x/gov/keeper.Keeper.savePermissionsForRole", "must", 1%nat, "decodes bytes (or re-parses an address) that this module stored itself with the matching Marshal -- audited by kind", ["de5be9cd39d417b9"]);
+  ("x/gov/keeper.ValidateRoleSidKey", "must", 1%nat, "decodes bytes (or re-parses an address) that this module stored itself with the matching Marshal -- audited by kind", ["c90a6e8e7356d966"]);
   ("x/gov/keeper.getRolePermissions", "index", 1%nat, "map lookup or index bounded by the enclosing loop / length check", ["68bafff8905381e3"]);
   ("x/gov/types.CalculatePollVotes", "index", 1%nat, "map lookup or index bounded by the enclosing loop / length check", ["f6d35cce8291d236"]);
   ("x/gov/types.CalculateVotes", "index", 1%nat, "map lookup or index bounded by the enclosing loop / length check", ["b6810ce0ce180988"]);
@@ -357,140 +370,140 @@ Definition audit_table : list (string * string * nat * string * list string) := 
   ("x/gov/types.CalculatedVotes.ProcessResult", "index", 5%nat, "map lookup or index bounded by the enclosing loop / length check", ["5bfc893f14a8e264"]);
   ("x/gov/types.ProposalRouter.AllowedAddressesDynamicProposal", "panic", 1%nat, "unreachable: same content type already routed at submission (state-independent, input_only_panics_filtered)", ["d24018d62fbb62f2"]);
   ("x/gov/types.ProposalRouter.QuorumDynamicProposal", "panic", 1%nat, "unreachable: same content type already routed at submission (state-independent)", ["f3e82318fb4875cd"]);
-  ("x/layer2.ApplyJoinDappProposalHandler.AllowedAddresses", "assert", 1%nat, "proposal content assertion inside its own handler: the router dispatches on ProposalType() of the same content, so the dynamic type matches", []);
-  ("x/layer2.ApplyJoinDappProposalHandler.Apply", "assert", 1%nat, "proposal content assertion inside its own handler: the router dispatches on ProposalType() of the same content, so the dynamic type matches", []);
-  ("x/layer2.ApplyJoinDappProposalHandler.IsAllowedAddress", "assert", 1%nat, "proposal content assertion inside its own handler: the router dispatches on ProposalType() of the same content, so the dynamic type matches", []);
-  ("x/layer2.ApplyJoinDappProposalHandler.Quorum", "assert", 1%nat, "proposal content assertion inside its own handler: the router dispatches on ProposalType() of the same content, so the dynamic type matches", []);
-  ("x/layer2.ApplyJoinDappProposalHandler.VoteEnactment", "assert", 1%nat, "proposal content assertion inside its own handler: the router dispatches on ProposalType() of the same content, so the dynamic type matches", []);
-  ("x/layer2.ApplyJoinDappProposalHandler.VotePeriod", "assert", 1%nat, "proposal content assertion inside its own handler: the router dispatches on ProposalType() of the same content, so the dynamic type matches", []);
-  ("x/layer2.ApplyUpsertDappProposalHandler.AllowedAddresses", "assert", 1%nat, "proposal content assertion inside its own handler: the router dispatches on ProposalType() of the same content, so the dynamic type matches", []);
-  ("x/layer2.ApplyUpsertDappProposalHandler.Apply", "assert", 1%nat, "proposal content assertion inside its own handler: the router dispatches on ProposalType() of the same content, so the dynamic type matches", []);
-  ("x/layer2.ApplyUpsertDappProposalHandler.IsAllowedAddress", "assert", 1%nat, "proposal content assertion inside its own handler: the router dispatches on ProposalType() of the same content, so the dynamic type matches", []);
-  ("x/layer2.ApplyUpsertDappProposalHandler.Quorum", "assert", 1%nat, "proposal content assertion inside its own handler: the router dispatches on ProposalType() of the same content, so the dynamic type matches", []);
-  ("x/layer2.ApplyUpsertDappProposalHandler.VoteEnactment", "assert", 1%nat, "proposal content assertion inside its own handler: the router dispatches on ProposalType() of the same content, so the dynamic type matches", []);
-  ("x/layer2.ApplyUpsertDappProposalHandler.VotePeriod", "assert", 1%nat, "proposal content assertion inside its own handler: the router dispatches on ProposalType() of the same content, so the dynamic type matches", []);
+  ("x/layer2.ApplyJoinDappProposalHandler.AllowedAddresses", "assert", 1%nat, "proposal content assertion inside its own handler: the router dispatches on ProposalType() of the same content, so the dynamic type matches", ["721ec2495c217b4d"]);
+  ("x/layer2.ApplyJoinDappProposalHandler.Apply", "assert", 1%nat, "proposal content assertion inside its own handler: the router dispatches on ProposalType() of the same content, so the dynamic type matches", ["3f9e334a4b937a48"]);
+  ("x/layer2.ApplyJoinDappProposalHandler.IsAllowedAddress", "assert", 1%nat, "proposal content assertion inside its own handler: the router dispatches on ProposalType() of the same content, so the dynamic type matches", ["0709268d9174b42e"]);
+  ("x/layer2.ApplyJoinDappProposalHandler.Quorum", "assert", 1%nat, "proposal content assertion inside its own handler: the router dispatches on ProposalType() of the same content, so the dynamic type matches", ["f2127c949688bd6f"]);
+  ("x/layer2.ApplyJoinDappProposalHandler.VoteEnactment", "assert", 1%nat, "proposal content assertion inside its own handler: the router dispatches on ProposalType() of the same content, so the dynamic type matches", ["1aeda5aee290a23d"]);
+  ("x/layer2.ApplyJoinDappProposalHandler.VotePeriod", "assert", 1%nat, "proposal content assertion inside its own handler: the router dispatches on ProposalType() of the same content, so the dynamic type matches", ["d5253d9fda1d8336"]);
+  ("x/layer2.ApplyUpsertDappProposalHandler.AllowedAddresses", "assert", 1%nat, "proposal content assertion inside its own handler: the router dispatches on ProposalType() of the same content, so the dynamic type matches", ["ce345ff6f52e7bab"]);
+  ("x/layer2.ApplyUpsertDappProposalHandler.Apply", "assert", 1%nat, "proposal content assertion inside its own handler: the router dispatches on ProposalType() of the same content, so the dynamic type matches", ["8fe010793571fe73"]);
+  ("x/layer2.ApplyUpsertDappProposalHandler.IsAllowedAddress", "assert", 1%nat, "proposal content assertion inside its own handler: the router dispatches on ProposalType() of the same content, so the dynamic type matches", ["32ec81c3bb975573"]);
+  ("x/layer2.ApplyUpsertDappProposalHandler.Quorum", "assert", 1%nat, "proposal content assertion inside its own handler: the router dispatches on ProposalType() of the same content, so the dynamic type matches", ["651433d0487d5597"]);
+  ("x/layer2.ApplyUpsertDappProposalHandler.VoteEnactment", "assert", 1%nat, "proposal content assertion inside its own handler: the router dispatches on ProposalType() of the same content, so the dynamic type matches", ["5c4d8dcb58394bd1"]);
+  ("x/layer2.ApplyUpsertDappProposalHandler.VotePeriod", "assert", 1%nat, "proposal content assertion inside its own handler: the router dispatches on ProposalType() of the same content, so the dynamic type matches", ["7dcabd634f002cc6"]);
   ("x/layer2/keeper.Keeper.AllowedAddresses", "index", 4%nat, "map lookup or index bounded by the enclosing loop / length check", ["eea763ee20a867a0"]);
-  ("x/layer2/keeper.Keeper.EndBlocker", "must", 1%nat, "TeamReserve of an ACTIVE dApp: a dApp only becomes active after FinishDappBootstrap parsed the same string when premint is positive; with premint 0 and postmint positive: suspected, not reproduced (bootstrap leaves the dApp Halted)", []);
+  ("x/layer2/keeper.Keeper.EndBlocker", "must", 1%nat, "TeamReserve of an ACTIVE dApp: a dApp only becomes active after FinishDappBootstrap parsed the same string when premint is positive; with premint 0 and postmint positive: suspected, not reproduced (bootstrap leaves the dApp Halted)", ["b8af367205165836"]);
   ("x/layer2/keeper.Keeper.EndBlocker", "newcoin", 1%nat, "amount is a product/fraction of non-negative stored amounts; denom validated at creation", ["b8af367205165836"]);
   ("x/layer2/keeper.Keeper.EndBlocker", "panic", 1%nat, "premint payout of LP tokens minted at bootstrap for exactly this purpose", ["b8af367205165836"]);
-  ("x/layer2/keeper.Keeper.ExecuteDappRemove", "must", 1%nat, "decodes bytes (or re-parses an address) that this module stored itself with the matching Marshal -- audited by kind", []);
+  ("x/layer2/keeper.Keeper.ExecuteDappRemove", "must", 1%nat, "decodes bytes (or re-parses an address) that this module stored itself with the matching Marshal -- audited by kind", ["174c93808c343e7b"]);
   ("x/layer2/keeper.Keeper.FinishDappBootstrap", "quo", 1%nat, "guarded against zero (drip == 0 => 1) but not against int64(drip) < 0: finding FinishDappBootstrap:neg-deccoin", ["cf64fcd11a9d0b24"]);
   ("x/layer2/keeper.Keeper.FinishDappBootstrap", "newcoin", 4%nat, "REACHABLE: negative pool ratio / issuance: finding FinishDappBootstrap:neg-coin", ["cf64fcd11a9d0b24"]);
   ("x/layer2/keeper.Keeper.FinishDappBootstrap", "panic", 2%nat, "REACHABLE: MsgCreateDappProposal validates nothing: findings FinishDappBootstrap:invalid-coins / invalid-bech32 (dapp-bootstrap histories)", ["cf64fcd11a9d0b24"]);
-  ("x/layer2/keeper.Keeper.FinishDappBootstrap", "must", 1%nat, "REACHABLE: TeamReserve is not validated at creation: finding FinishDappBootstrap:invalid-bech32", []);
-  ("x/layer2/keeper.Keeper.GetAllDapps", "must", 1%nat, "decodes bytes (or re-parses an address) that this module stored itself with the matching Marshal -- audited by kind", []);
-  ("x/layer2/keeper.Keeper.GetBridgeAccount", "must", 1%nat, "decodes bytes (or re-parses an address) that this module stored itself with the matching Marshal -- audited by kind", []);
-  ("x/layer2/keeper.Keeper.GetBridgeRegistrarHelper", "must", 1%nat, "decodes bytes (or re-parses an address) that this module stored itself with the matching Marshal -- audited by kind", []);
-  ("x/layer2/keeper.Keeper.GetDapp", "must", 1%nat, "decodes bytes (or re-parses an address) that this module stored itself with the matching Marshal -- audited by kind", []);
-  ("x/layer2/keeper.Keeper.GetDappOperator", "must", 1%nat, "decodes bytes (or re-parses an address) that this module stored itself with the matching Marshal -- audited by kind", []);
-  ("x/layer2/keeper.Keeper.GetDappOperators", "must", 1%nat, "decodes bytes (or re-parses an address) that this module stored itself with the matching Marshal -- audited by kind", []);
-  ("x/layer2/keeper.Keeper.GetDappSession", "must", 1%nat, "decodes bytes (or re-parses an address) that this module stored itself with the matching Marshal -- audited by kind", []);
-  ("x/layer2/keeper.Keeper.GetUserDappBonds", "must", 1%nat, "decodes bytes (or re-parses an address) that this module stored itself with the matching Marshal -- audited by kind", []);
-  ("x/layer2/keeper.Keeper.GetXAMs", "must", 1%nat, "decodes bytes (or re-parses an address) that this module stored itself with the matching Marshal -- audited by kind", []);
+  ("x/layer2/keeper.Keeper.FinishDappBootstrap", "must", 1%nat, "REACHABLE: TeamReserve is not validated at creation: finding FinishDappBootstrap:invalid-bech32", ["cf64fcd11a9d0b24"]);
+  ("x/layer2/keeper.Keeper.GetAllDapps", "must", 1%nat, "decodes bytes (or re-parses an address) that this module stored itself with the matching Marshal -- audited by kind", ["ebd57dad9b60798a"]);
+  ("x/layer2/keeper.Keeper.GetBridgeAccount", "must", 1%nat, "decodes bytes (or re-parses an address) that this module stored itself with the matching Marshal -- audited by kind", ["d6b416cc53b2f78f"]);
+  ("x/layer2/keeper.Keeper.GetBridgeRegistrarHelper", "must", 1%nat, "decodes bytes (or re-parses an address) that this module stored itself with the matching Marshal -- audited by kind", ["8dd19739c62a8e34"]);
+  ("x/layer2/keeper.Keeper.GetDapp", "must", 1%nat, "decodes bytes (or re-parses an address) that this module stored itself with the matching Marshal -- audited by kind", ["4f93505f0905c4cf"]);
+  ("x/layer2/keeper.Keeper.GetDappOperator", "must", 1%nat, "decodes bytes (or re-parses an address) that this module stored itself with the matching Marshal -- audited by kind", ["3acbb80637239776"]);
+  ("x/layer2/keeper.Keeper.GetDappOperators", "must", 1%nat, "decodes bytes (or re-parses an address) that this module stored itself with the matching Marshal -- audited by kind", ["f5db2720db224461"]);
+  ("x/layer2/keeper.Keeper.GetDappSession", "must", 1%nat, "decodes bytes (or re-parses an address) that this module stored itself with the matching Marshal -- audited by kind", ["e7cd502f941f40c9"]);
+  ("x/layer2/keeper.Keeper.GetUserDappBonds", "must", 1%nat, "decodes bytes (or re-parses an address) that this module stored itself with the matching Marshal -- audited by kind", ["99cab39c15d359d0"]);
+  ("x/layer2/keeper.Keeper.GetXAMs", "must", 1%nat, "decodes bytes (or re-parses an address) that this module stored itself with the matching Marshal -- audited by kind", ["2ae02a7b0f220b69"]);
   ("x/layer2/keeper.Keeper.IsAllowedAddress", "index", 2%nat, "map lookup or index bounded by the enclosing loop / length check", ["8c863e8c50394ba0"]);
   ("x/layer2/keeper.Keeper.ResetNewSession", "newcoin", 1%nat, "amount is a product/fraction of non-negative stored amounts; denom validated at creation", ["9a120065aae3fc2a"]);
-  ("x/layer2/keeper.Keeper.ResetNewSession", "must", 1%nat, "decodes bytes (or re-parses an address) that this module stored itself with the matching Marshal -- audited by kind", []);
+  ("x/layer2/keeper.Keeper.ResetNewSession", "must", 1%nat, "decodes bytes (or re-parses an address) that this module stored itself with the matching Marshal -- audited by kind", ["9a120065aae3fc2a"]);
   ("x/layer2/keeper.Keeper.ResetNewSession", "panic", 1%nat, "unreachable: guards a store / codec invariant (record written together with its index)", ["9a120065aae3fc2a"]);
   ("x/layer2/keeper.Keeper.ResetNewSession", "index", 1%nat, "map lookup or index bounded by the enclosing loop / length check", ["9a120065aae3fc2a"]);
   ("x/layer2/keeper.Keeper.ResetNewSession", "div", 1%nat, "modulo by the number of verified operators: guarded by the emptiness check before it", ["9a120065aae3fc2a"]);
-  ("x/layer2/keeper.Keeper.SetBridgeAccount", "must", 1%nat, "decodes bytes (or re-parses an address) that this module stored itself with the matching Marshal -- audited by kind", []);
-  ("x/layer2/keeper.Keeper.SetBridgeRegistrarHelper", "must", 1%nat, "decodes bytes (or re-parses an address) that this module stored itself with the matching Marshal -- audited by kind", []);
-  ("x/layer2/keeper.Keeper.SetDapp", "must", 1%nat, "decodes bytes (or re-parses an address) that this module stored itself with the matching Marshal -- audited by kind", []);
-  ("x/layer2/keeper.Keeper.SetDappOperator", "must", 1%nat, "decodes bytes (or re-parses an address) that this module stored itself with the matching Marshal -- audited by kind", []);
-  ("x/layer2/keeper.Keeper.SetDappSession", "must", 1%nat, "decodes bytes (or re-parses an address) that this module stored itself with the matching Marshal -- audited by kind", []);
-  ("x/layer2/keeper.Keeper.SetXAM", "must", 1%nat, "decodes bytes (or re-parses an address) that this module stored itself with the matching Marshal -- audited by kind", []);
-  ("x/layer2/keeper.msgServer.MintBurnTx", "must", 1%nat, "decodes bytes (or re-parses an address) that this module stored itself with the matching Marshal -- audited by kind", []);
+  ("x/layer2/keeper.Keeper.SetBridgeAccount", "must", 1%nat, "decodes bytes (or re-parses an address) that this module stored itself with the matching Marshal -- audited by kind", ["0e696196bd05b0d6"]);
+  ("x/layer2/keeper.Keeper.SetBridgeRegistrarHelper", "must", 1%nat, "decodes bytes (or re-parses an address) that this module stored itself with the matching Marshal -- audited by kind", ["9c5e7dbfb73e2e48"]);
+  ("x/layer2/keeper.Keeper.SetDapp", "must", 1%nat, "decodes bytes (or re-parses an address) that this module stored itself with the matching Marshal -- audited by kind", ["c1454d57cfcf32bc"]);
+  ("x/layer2/keeper.Keeper.SetDappOperator", "must", 1%nat, "decodes bytes (or re-parses an address) that this module stored itself with the matching Marshal -- audited by kind", ["56df2899afd7d67d"]);
+  ("x/layer2/keeper.Keeper.SetDappSession", "must", 1%nat, "decodes bytes (or re-parses an address) that this module stored itself with the matching Marshal -- audited by kind", ["6c87cf7a7a8f642c"]);
+  ("x/layer2/keeper.Keeper.SetXAM", "must", 1%nat, "decodes bytes (or re-parses an address) that this module stored itself with the matching Marshal -- audited by kind", ["90c2cb7a2d72c13f"]);
+  ("x/layer2/keeper.msgServer.MintBurnTx", "must", 1%nat, "decodes bytes (or re-parses an address) that this module stored itself with the matching Marshal -- audited by kind", ["cabb5ebda97b8924"]);
   ("x/layer2/keeper.msgServer.MintBurnTx", "newcoin", 1%nat, "amount is a product/fraction of non-negative stored amounts; denom validated at creation", ["cabb5ebda97b8924"]);
   ("x/layer2/keeper.msgServer.MintCreateFtTx", "newcoin", 1%nat, "amount is a product/fraction of non-negative stored amounts; denom validated at creation", ["9aadda9fdbc648ef"]);
-  ("x/layer2/keeper.msgServer.MintCreateFtTx", "must", 1%nat, "decodes bytes (or re-parses an address) that this module stored itself with the matching Marshal -- audited by kind", []);
+  ("x/layer2/keeper.msgServer.MintCreateFtTx", "must", 1%nat, "decodes bytes (or re-parses an address) that this module stored itself with the matching Marshal -- audited by kind", ["9aadda9fdbc648ef"]);
   ("x/layer2/keeper.msgServer.MintCreateNftTx", "newcoin", 1%nat, "amount is a product/fraction of non-negative stored amounts; denom validated at creation", ["ba376a5f0f7d37d0"]);
-  ("x/layer2/keeper.msgServer.MintCreateNftTx", "must", 1%nat, "decodes bytes (or re-parses an address) that this module stored itself with the matching Marshal -- audited by kind", []);
-  ("x/layer2/keeper.msgServer.MintIssueTx", "must", 2%nat, "decodes bytes (or re-parses an address) that this module stored itself with the matching Marshal -- audited by kind", []);
+  ("x/layer2/keeper.msgServer.MintCreateNftTx", "must", 1%nat, "decodes bytes (or re-parses an address) that this module stored itself with the matching Marshal -- audited by kind", ["ba376a5f0f7d37d0"]);
+  ("x/layer2/keeper.msgServer.MintIssueTx", "must", 2%nat, "decodes bytes (or re-parses an address) that this module stored itself with the matching Marshal -- audited by kind", ["0ff40733e1ea8466"]);
   ("x/layer2/keeper.msgServer.MintIssueTx", "newcoin", 2%nat, "amount is a product/fraction of non-negative stored amounts; denom validated at creation", ["0ff40733e1ea8466"]);
-  ("x/layer2/keeper.msgServer.TransferDappTx", "must", 1%nat, "decodes bytes (or re-parses an address) that this module stored itself with the matching Marshal -- audited by kind", []);
+  ("x/layer2/keeper.msgServer.TransferDappTx", "must", 1%nat, "decodes bytes (or re-parses an address) that this module stored itself with the matching Marshal -- audited by kind", ["4536d3ab87d35349"]);
   ("x/multistaking/keeper.Keeper.ClaimRewards", "panic", 1%nat, "unreachable: guards a store / codec invariant (record written together with its index)", ["0cb64d180c28bba9"]);
   ("x/multistaking/keeper.Keeper.ClaimRewardsFromModule", "panic", 1%nat, "unreachable: guards a store / codec invariant (record written together with its index)", ["4cde2db996dac55d"]);
-  ("x/multistaking/keeper.Keeper.GetAllStakingPools", "must", 1%nat, "decodes bytes (or re-parses an address) that this module stored itself with the matching Marshal -- audited by kind", []);
-  ("x/multistaking/keeper.Keeper.GetCompoundInfoByAddress", "must", 1%nat, "decodes bytes (or re-parses an address) that this module stored itself with the matching Marshal -- audited by kind", []);
+  ("x/multistaking/keeper.Keeper.GetAllStakingPools", "must", 1%nat, "decodes bytes (or re-parses an address) that this module stored itself with the matching Marshal -- audited by kind", ["5f060253f8e1c82a"]);
+  ("x/multistaking/keeper.Keeper.GetCompoundInfoByAddress", "must", 1%nat, "decodes bytes (or re-parses an address) that this module stored itself with the matching Marshal -- audited by kind", ["78c281e2ea9a0b9c"]);
   ("x/multistaking/keeper.Keeper.GetDelegatorRewards", "panic", 1%nat, "unreachable: guards a store / codec invariant (record written together with its index)", ["759deeebf729e036"]);
-  ("x/multistaking/keeper.Keeper.GetStakingPoolByValidator", "must", 1%nat, "decodes bytes (or re-parses an address) that this module stored itself with the matching Marshal -- audited by kind", []);
+  ("x/multistaking/keeper.Keeper.GetStakingPoolByValidator", "must", 1%nat, "decodes bytes (or re-parses an address) that this module stored itself with the matching Marshal -- audited by kind", ["1a43f0719ed68279"]);
   ("x/multistaking/keeper.Keeper.IncreasePoolRewards", "newcoin", 2%nat, "non-negative products", ["d230d63a957c9ea3"; "a11b046450bd2b1c"]);
   ("x/multistaking/keeper.Keeper.IncreasePoolRewards", "quo", 1%nat, "guarded: shareToken.Amount.IsZero() => continue", ["d230d63a957c9ea3"; "a11b046450bd2b1c"]);
   ("x/multistaking/keeper.Keeper.IncreasePoolRewards", "sub", 1%nat, "autoCompoundRewards is a sub-multiset of rewards by construction", ["d230d63a957c9ea3"; "a11b046450bd2b1c"]);
   ("x/multistaking/keeper.Keeper.IncreasePoolRewards", "panic", 2%nat, "REACHABLE: panic(err) after the autocompound re-delegation: findings IncreasePoolRewards:not-active-validator / slashed-pool / not-allowed-staking-token (pending fix C06-autocompound-no-panic); the payout of an over-credit (Halt.credit_two) surfaces in the following AllocateTokensToValidator", ["d230d63a957c9ea3"; "a11b046450bd2b1c"]);
-  ("x/multistaking/keeper.Keeper.SetCompoundInfo", "must", 1%nat, "decodes bytes (or re-parses an address) that this module stored itself with the matching Marshal -- audited by kind", []);
-  ("x/multistaking/keeper.Keeper.SetStakingPool", "must", 1%nat, "decodes bytes (or re-parses an address) that this module stored itself with the matching Marshal -- audited by kind", []);
+  ("x/multistaking/keeper.Keeper.SetCompoundInfo", "must", 1%nat, "decodes bytes (or re-parses an address) that this module stored itself with the matching Marshal -- audited by kind", ["c6fceb728a4aee3b"]);
+  ("x/multistaking/keeper.Keeper.SetStakingPool", "must", 1%nat, "decodes bytes (or re-parses an address) that this module stored itself with the matching Marshal -- audited by kind", ["0980cc29fad49e87"]);
   ("x/multistaking/keeper.Keeper.SlashStakingPool", "newcoin", 2%nat, "non-negative fractions", ["3659416c5742f268"]);
   ("x/multistaking/keeper.Keeper.SlashStakingPool", "sub", 3%nat, "fractions of the pool totals (slash in [0,1])", ["3659416c5742f268"]);
   ("x/multistaking/keeper.Keeper.SlashStakingPool", "panic", 3%nat, "reached from SlashValidator.Apply in the gov end-blocker (no dry run); since fix 27b0386 the keeper is shared and an empty burn is skipped: burn / transfer of fractions (slash in [0,1]) of module-held stake; slash-proposal histories (slash, unjail, activate, undelegate, rewards) complete", ["3659416c5742f268"]);
   ("x/recovery/keeper.Keeper.ClaimRewards", "panic", 1%nat, "unreachable: guards a store / codec invariant (record written together with its index)", ["481ac89eced8ac7f"]);
   ("x/recovery/keeper.Keeper.GetRRTokenHolderRewards", "panic", 1%nat, "unreachable: guards a store / codec invariant (record written together with its index)", ["8279fa45ce06c49d"]);
-  ("x/recovery/keeper.Keeper.GetRecoveryToken", "must", 1%nat, "decodes bytes (or re-parses an address) that this module stored itself with the matching Marshal -- audited by kind", []);
+  ("x/recovery/keeper.Keeper.GetRecoveryToken", "must", 1%nat, "decodes bytes (or re-parses an address) that this module stored itself with the matching Marshal -- audited by kind", ["68cd1241d1ebbd98"]);
   ("x/recovery/keeper.Keeper.IncreaseRecoveryTokenUnderlying", "sub", 1%nat, "sdk.Int / time subtraction or Coins.Sub guarded by an error-returning balance check before it", ["5f101af1a595a034"]);
-  ("x/slashing.ApplyResetWholeValidatorRankProposalHandler.Apply", "assert", 1%nat, "proposal content assertion inside its own handler: the router dispatches on ProposalType() of the same content, so the dynamic type matches", []);
-  ("x/slashing.ApplySlashValidatorProposalHandler.Apply", "assert", 1%nat, "proposal content assertion inside its own handler: the router dispatches on ProposalType() of the same content, so the dynamic type matches", []);
-  ("x/slashing/keeper.Keeper.GetValidatorSigningInfo", "must", 1%nat, "decodes bytes (or re-parses an address) that this module stored itself with the matching Marshal -- audited by kind", []);
+  ("x/slashing.ApplyResetWholeValidatorRankProposalHandler.Apply", "assert", 1%nat, "proposal content assertion inside its own handler: the router dispatches on ProposalType() of the same content, so the dynamic type matches", ["7a0cbc4ff2440567"]);
+  ("x/slashing.ApplySlashValidatorProposalHandler.Apply", "assert", 1%nat, "proposal content assertion inside its own handler: the router dispatches on ProposalType() of the same content, so the dynamic type matches", ["b0a4d5bbaced26e2"]);
+  ("x/slashing/keeper.Keeper.GetValidatorSigningInfo", "must", 1%nat, "decodes bytes (or re-parses an address) that this module stored itself with the matching Marshal -- audited by kind", ["0d9b0edc8d11c27b"]);
   ("x/slashing/keeper.Keeper.HandleValidatorSignature", "panic", 3%nat, "unreachable for votes of validators CometBFT knows through this app's updates (pubkey relation + signing info written on join); exercised by every block of the harness", ["8135aa2c67190238"]);
-  ("x/slashing/keeper.Keeper.IterateValidatorSigningInfos", "must", 1%nat, "decodes bytes (or re-parses an address) that this module stored itself with the matching Marshal -- audited by kind", []);
+  ("x/slashing/keeper.Keeper.IterateValidatorSigningInfos", "must", 1%nat, "decodes bytes (or re-parses an address) that this module stored itself with the matching Marshal -- audited by kind", ["451aff9c9e07213f"]);
   ("x/slashing/keeper.Keeper.IterateValidatorSigningInfos", "panic", 1%nat, "unreachable: guards a store / codec invariant (record written together with its index)", ["451aff9c9e07213f"]);
-  ("x/slashing/keeper.Keeper.Jail", "assert", 1%nat, "since fix fb18192 rotation stores the updated ProposalSlashValidator, so the content of a proposal of type SlashValidator has that dynamic type (recovery-rotation histories complete)", []);
+  ("x/slashing/keeper.Keeper.Jail", "assert", 1%nat, "since fix fb18192 rotation stores the updated ProposalSlashValidator, so the content of a proposal of type SlashValidator has that dynamic type (recovery-rotation histories complete)", ["10fd186967ed4ba1"]);
   ("x/slashing/keeper.Keeper.JailUntil", "panic", 1%nat, "unreachable: guards a store / codec invariant (record written together with its index)", ["a6981c2b2eadd02f"]);
-  ("x/slashing/keeper.Keeper.SetValidatorSigningInfo", "must", 1%nat, "decodes bytes (or re-parses an address) that this module stored itself with the matching Marshal -- audited by kind", []);
-  ("x/spending.ApplySpendingPoolDistributionProposalHandler.AllowedAddresses", "assert", 1%nat, "proposal content assertion inside its own handler: the router dispatches on ProposalType() of the same content, so the dynamic type matches", []);
-  ("x/spending.ApplySpendingPoolDistributionProposalHandler.Apply", "assert", 1%nat, "proposal content assertion inside its own handler: the router dispatches on ProposalType() of the same content, so the dynamic type matches", []);
+  ("x/slashing/keeper.Keeper.SetValidatorSigningInfo", "must", 1%nat, "decodes bytes (or re-parses an address) that this module stored itself with the matching Marshal -- audited by kind", ["0043bd971ad87643"]);
+  ("x/spending.ApplySpendingPoolDistributionProposalHandler.AllowedAddresses", "assert", 1%nat, "proposal content assertion inside its own handler: the router dispatches on ProposalType() of the same content, so the dynamic type matches", ["e1bcc58666658858"]);
+  ("x/spending.ApplySpendingPoolDistributionProposalHandler.Apply", "assert", 1%nat, "proposal content assertion inside its own handler: the router dispatches on ProposalType() of the same content, so the dynamic type matches", ["9893d34d54a1b63c"]);
   ("x/spending.ApplySpendingPoolDistributionProposalHandler.Apply", "index", 2%nat, "map lookups; the nil pool dereference on a missing pool is state-independent in practice (pools are never deleted) and fails the dry run", ["9893d34d54a1b63c"]);
-  ("x/spending.ApplySpendingPoolDistributionProposalHandler.IsAllowedAddress", "assert", 1%nat, "proposal content assertion inside its own handler: the router dispatches on ProposalType() of the same content, so the dynamic type matches", []);
-  ("x/spending.ApplySpendingPoolDistributionProposalHandler.Quorum", "assert", 1%nat, "proposal content assertion inside its own handler: the router dispatches on ProposalType() of the same content, so the dynamic type matches", []);
-  ("x/spending.ApplySpendingPoolDistributionProposalHandler.VoteEnactment", "assert", 1%nat, "proposal content assertion inside its own handler: the router dispatches on ProposalType() of the same content, so the dynamic type matches", []);
-  ("x/spending.ApplySpendingPoolDistributionProposalHandler.VotePeriod", "assert", 1%nat, "proposal content assertion inside its own handler: the router dispatches on ProposalType() of the same content, so the dynamic type matches", []);
-  ("x/spending.ApplySpendingPoolWithdrawProposalHandler.AllowedAddresses", "assert", 1%nat, "proposal content assertion inside its own handler: the router dispatches on ProposalType() of the same content, so the dynamic type matches", []);
-  ("x/spending.ApplySpendingPoolWithdrawProposalHandler.Apply", "assert", 1%nat, "proposal content assertion inside its own handler: the router dispatches on ProposalType() of the same content, so the dynamic type matches", []);
-  ("x/spending.ApplySpendingPoolWithdrawProposalHandler.IsAllowedAddress", "assert", 1%nat, "proposal content assertion inside its own handler: the router dispatches on ProposalType() of the same content, so the dynamic type matches", []);
-  ("x/spending.ApplySpendingPoolWithdrawProposalHandler.Quorum", "assert", 1%nat, "proposal content assertion inside its own handler: the router dispatches on ProposalType() of the same content, so the dynamic type matches", []);
-  ("x/spending.ApplySpendingPoolWithdrawProposalHandler.VoteEnactment", "assert", 1%nat, "proposal content assertion inside its own handler: the router dispatches on ProposalType() of the same content, so the dynamic type matches", []);
-  ("x/spending.ApplySpendingPoolWithdrawProposalHandler.VotePeriod", "assert", 1%nat, "proposal content assertion inside its own handler: the router dispatches on ProposalType() of the same content, so the dynamic type matches", []);
-  ("x/spending.ApplyUpdateSpendingPoolProposalHandler.AllowedAddresses", "assert", 1%nat, "proposal content assertion inside its own handler: the router dispatches on ProposalType() of the same content, so the dynamic type matches", []);
-  ("x/spending.ApplyUpdateSpendingPoolProposalHandler.Apply", "assert", 1%nat, "proposal content assertion inside its own handler: the router dispatches on ProposalType() of the same content, so the dynamic type matches", []);
-  ("x/spending.ApplyUpdateSpendingPoolProposalHandler.IsAllowedAddress", "assert", 1%nat, "proposal content assertion inside its own handler: the router dispatches on ProposalType() of the same content, so the dynamic type matches", []);
-  ("x/spending.ApplyUpdateSpendingPoolProposalHandler.Quorum", "assert", 1%nat, "proposal content assertion inside its own handler: the router dispatches on ProposalType() of the same content, so the dynamic type matches", []);
-  ("x/spending.ApplyUpdateSpendingPoolProposalHandler.VoteEnactment", "assert", 1%nat, "proposal content assertion inside its own handler: the router dispatches on ProposalType() of the same content, so the dynamic type matches", []);
-  ("x/spending.ApplyUpdateSpendingPoolProposalHandler.VotePeriod", "assert", 1%nat, "proposal content assertion inside its own handler: the router dispatches on ProposalType() of the same content, so the dynamic type matches", []);
+  ("x/spending.ApplySpendingPoolDistributionProposalHandler.IsAllowedAddress", "assert", 1%nat, "proposal content assertion inside its own handler: the router dispatches on ProposalType() of the same content, so the dynamic type matches", ["6dccec95d06ebf78"]);
+  ("x/spending.ApplySpendingPoolDistributionProposalHandler.Quorum", "assert", 1%nat, "proposal content assertion inside its own handler: the router dispatches on ProposalType() of the same content, so the dynamic type matches", ["d03834529df95eba"]);
+  ("x/spending.ApplySpendingPoolDistributionProposalHandler.VoteEnactment", "assert", 1%nat, "proposal content assertion inside its own handler: the router dispatches on ProposalType() of the same content, so the dynamic type matches", ["5fe22ca28ddf19d1"]);
+  ("x/spending.ApplySpendingPoolDistributionProposalHandler.VotePeriod", "assert", 1%nat, "proposal content assertion inside its own handler: the router dispatches on ProposalType() of the same content, so the dynamic type matches", ["24bb44375e0c415f"]);
+  ("x/spending.ApplySpendingPoolWithdrawProposalHandler.AllowedAddresses", "assert", 1%nat, "proposal content assertion inside its own handler: the router dispatches on ProposalType() of the same content, so the dynamic type matches", ["5ded0587860603c8"]);
+  ("x/spending.ApplySpendingPoolWithdrawProposalHandler.Apply", "assert", 1%nat, "proposal content assertion inside its own handler: the router dispatches on ProposalType() of the same content, so the dynamic type matches", ["542d2367ae4f108b"]);
+  ("x/spending.ApplySpendingPoolWithdrawProposalHandler.IsAllowedAddress", "assert", 1%nat, "proposal content assertion inside its own handler: the router dispatches on ProposalType() of the same content, so the dynamic type matches", ["788c2fe76a3278fa"]);
+  ("x/spending.ApplySpendingPoolWithdrawProposalHandler.Quorum", "assert", 1%nat, "proposal content assertion inside its own handler: the router dispatches on ProposalType() of the same content, so the dynamic type matches", ["dae4531c74329cbf"]);
+  ("x/spending.ApplySpendingPoolWithdrawProposalHandler.VoteEnactment", "assert", 1%nat, "proposal content assertion inside its own handler: the router dispatches on ProposalType() of the same content, so the dynamic type matches", ["195c016360c54dff"]);
+  ("x/spending.ApplySpendingPoolWithdrawProposalHandler.VotePeriod", "assert", 1%nat, "proposal content assertion inside its own handler: the router dispatches on ProposalType() of the same content, so the dynamic type matches", ["d180f83a55a09f65"]);
+  ("x/spending.ApplyUpdateSpendingPoolProposalHandler.AllowedAddresses", "assert", 1%nat, "proposal content assertion inside its own handler: the router dispatches on ProposalType() of the same content, so the dynamic type matches", ["04e762e5c7d6acac"]);
+  ("x/spending.ApplyUpdateSpendingPoolProposalHandler.Apply", "assert", 1%nat, "proposal content assertion inside its own handler: the router dispatches on ProposalType() of the same content, so the dynamic type matches", ["2ad38aa0861ca04f"]);
+  ("x/spending.ApplyUpdateSpendingPoolProposalHandler.IsAllowedAddress", "assert", 1%nat, "proposal content assertion inside its own handler: the router dispatches on ProposalType() of the same content, so the dynamic type matches", ["a4ba89e8a6fc5f92"]);
+  ("x/spending.ApplyUpdateSpendingPoolProposalHandler.Quorum", "assert", 1%nat, "proposal content assertion inside its own handler: the router dispatches on ProposalType() of the same content, so the dynamic type matches", ["6583cf1a66896ef5"]);
+  ("x/spending.ApplyUpdateSpendingPoolProposalHandler.VoteEnactment", "assert", 1%nat, "proposal content assertion inside its own handler: the router dispatches on ProposalType() of the same content, so the dynamic type matches", ["5a9f921d1bd45ad4"]);
+  ("x/spending.ApplyUpdateSpendingPoolProposalHandler.VotePeriod", "assert", 1%nat, "proposal content assertion inside its own handler: the router dispatches on ProposalType() of the same content, so the dynamic type matches", ["ff2a7e4b6f53a291"]);
   ("x/spending/keeper.Keeper.AllowedAddresses", "index", 4%nat, "map lookup or index bounded by the enclosing loop / length check", ["6264758094c83280"]);
-  ("x/spending/keeper.Keeper.EndBlocker", "must", 1%nat, "decodes bytes (or re-parses an address) that this module stored itself with the matching Marshal -- audited by kind", []);
-  ("x/spending/keeper.Keeper.GetAllSpendingPools", "must", 1%nat, "decodes bytes (or re-parses an address) that this module stored itself with the matching Marshal -- audited by kind", []);
+  ("x/spending/keeper.Keeper.EndBlocker", "must", 1%nat, "decodes bytes (or re-parses an address) that this module stored itself with the matching Marshal -- audited by kind", ["715d8a8b0d13e281"]);
+  ("x/spending/keeper.Keeper.GetAllSpendingPools", "must", 1%nat, "decodes bytes (or re-parses an address) that this module stored itself with the matching Marshal -- audited by kind", ["fcbb6ac3a7828bc4"]);
   ("x/spending/keeper.Keeper.GetBeneficiaryWeight", "index", 2%nat, "map lookup or index bounded by the enclosing loop / length check", ["6a5e9d7ee8132d01"]);
-  ("x/spending/keeper.Keeper.GetClaimInfo", "must", 1%nat, "decodes bytes (or re-parses an address) that this module stored itself with the matching Marshal -- audited by kind", []);
-  ("x/spending/keeper.Keeper.GetPoolClaimInfos", "must", 1%nat, "decodes bytes (or re-parses an address) that this module stored itself with the matching Marshal -- audited by kind", []);
-  ("x/spending/keeper.Keeper.GetSpendingPool", "must", 1%nat, "decodes bytes (or re-parses an address) that this module stored itself with the matching Marshal -- audited by kind", []);
+  ("x/spending/keeper.Keeper.GetClaimInfo", "must", 1%nat, "decodes bytes (or re-parses an address) that this module stored itself with the matching Marshal -- audited by kind", ["233d712c13289c9f"]);
+  ("x/spending/keeper.Keeper.GetPoolClaimInfos", "must", 1%nat, "decodes bytes (or re-parses an address) that this module stored itself with the matching Marshal -- audited by kind", ["45bb5e79c4a1c6f9"]);
+  ("x/spending/keeper.Keeper.GetSpendingPool", "must", 1%nat, "decodes bytes (or re-parses an address) that this module stored itself with the matching Marshal -- audited by kind", ["896f46830e7c8974"]);
   ("x/spending/keeper.Keeper.IsAllowedAddress", "index", 2%nat, "map lookup or index bounded by the enclosing loop / length check", ["3e2ff6da40835b6c"]);
   ("x/spending/keeper.Keeper.IsAllowedBeneficiary", "index", 2%nat, "map lookup or index bounded by the enclosing loop / length check", ["2107107913c16f7d"]);
-  ("x/spending/keeper.Keeper.SetClaimInfo", "must", 1%nat, "decodes bytes (or re-parses an address) that this module stored itself with the matching Marshal -- audited by kind", []);
-  ("x/spending/keeper.Keeper.SetSpendingPool", "must", 1%nat, "decodes bytes (or re-parses an address) that this module stored itself with the matching Marshal -- audited by kind", []);
-  ("x/spending/types.ValidateSpendingPoolName", "must", 1%nat, "decodes bytes (or re-parses an address) that this module stored itself with the matching Marshal -- audited by kind", []);
-  ("x/staking.ApplyUnjailValidatorProposalHandler.Apply", "assert", 1%nat, "proposal content assertion inside its own handler: the router dispatches on ProposalType() of the same content, so the dynamic type matches", []);
-  ("x/staking/keeper.Keeper.AddValidator", "must", 1%nat, "decodes bytes (or re-parses an address) that this module stored itself with the matching Marshal -- audited by kind", []);
-  ("x/staking/keeper.Keeper.GetPendingValidatorSet", "must", 1%nat, "decodes bytes (or re-parses an address) that this module stored itself with the matching Marshal -- audited by kind", []);
-  ("x/staking/keeper.Keeper.GetValidatorJailInfo", "must", 1%nat, "decodes bytes (or re-parses an address) that this module stored itself with the matching Marshal -- audited by kind", []);
-  ("x/staking/keeper.Keeper.GetValidatorSet", "must", 1%nat, "decodes bytes (or re-parses an address) that this module stored itself with the matching Marshal -- audited by kind", []);
+  ("x/spending/keeper.Keeper.SetClaimInfo", "must", 1%nat, "decodes bytes (or re-parses an address) that this module stored itself with the matching Marshal -- audited by kind", ["a31572ae398be9c5"]);
+  ("x/spending/keeper.Keeper.SetSpendingPool", "must", 1%nat, "decodes bytes (or re-parses an address) that this module stored itself with the matching Marshal -- audited by kind", ["1283b4cd6cc7eacd"]);
+  ("x/spending/types.ValidateSpendingPoolName", "must", 1%nat, "decodes bytes (or re-parses an address) that this module stored itself with the matching Marshal -- audited by kind", ["1069e3348eb9250b"]);
+  ("x/staking.ApplyUnjailValidatorProposalHandler.Apply", "assert", 1%nat, "proposal content assertion inside its own handler: the router dispatches on ProposalType() of the same content, so the dynamic type matches", ["14162fad8a55931b"]);
+  ("x/staking/keeper.Keeper.AddValidator", "must", 1%nat, "decodes bytes (or re-parses an address) that this module stored itself with the matching Marshal -- audited by kind", ["bd1a208e43ada858"]);
+  ("x/staking/keeper.Keeper.GetPendingValidatorSet", "must", 1%nat, "decodes bytes (or re-parses an address) that this module stored itself with the matching Marshal -- audited by kind", ["459962b75bd7cdeb"]);
+  ("x/staking/keeper.Keeper.GetValidatorJailInfo", "must", 1%nat, "decodes bytes (or re-parses an address) that this module stored itself with the matching Marshal -- audited by kind", ["5c6122114f5c2349"]);
+  ("x/staking/keeper.Keeper.GetValidatorSet", "must", 1%nat, "decodes bytes (or re-parses an address) that this module stored itself with the matching Marshal -- audited by kind", ["e7123651d91fbc0d"]);
   ("x/staking/keeper.Keeper.Inactivate", "sub", 1%nat, "sdk.Int / time subtraction or Coins.Sub guarded by an error-returning balance check before it", ["9ac003aa6a758626"]);
   ("x/staking/keeper.Keeper.PauseProposalNotApprovedValidators", "index", 3%nat, "map lookup or index bounded by the enclosing loop / length check", ["66185722e22265cb"]);
-  ("x/staking/keeper.Keeper.getValidatorByKey", "must", 1%nat, "decodes bytes (or re-parses an address) that this module stored itself with the matching Marshal -- audited by kind", []);
-  ("x/staking/keeper.Keeper.setJailValidatorInfo", "must", 1%nat, "decodes bytes (or re-parses an address) that this module stored itself with the matching Marshal -- audited by kind", []);
-  ("x/tokens.ApplyUpsertTokenInfosProposalHandler.Apply", "assert", 1%nat, "proposal content assertion inside its own handler: the router dispatches on ProposalType() of the same content, so the dynamic type matches", []);
-  ("x/tokens.ApplyWhiteBlackChangeProposalHandler.Apply", "assert", 1%nat, "proposal content assertion inside its own handler: the router dispatches on ProposalType() of the same content, so the dynamic type matches", []);
+  ("x/staking/keeper.Keeper.getValidatorByKey", "must", 1%nat, "decodes bytes (or re-parses an address) that this module stored itself with the matching Marshal -- audited by kind", ["86eb4e7950b0a5f0"]);
+  ("x/staking/keeper.Keeper.setJailValidatorInfo", "must", 1%nat, "decodes bytes (or re-parses an address) that this module stored itself with the matching Marshal -- audited by kind", ["6b4d1bd110129330"]);
+  ("x/tokens.ApplyUpsertTokenInfosProposalHandler.Apply", "assert", 1%nat, "proposal content assertion inside its own handler: the router dispatches on ProposalType() of the same content, so the dynamic type matches", ["b06dca7bb4f15363"]);
+  ("x/tokens.ApplyWhiteBlackChangeProposalHandler.Apply", "assert", 1%nat, "proposal content assertion inside its own handler: the router dispatches on ProposalType() of the same content, so the dynamic type matches", ["176eb6b88132c613"]);
   ("x/tokens/keeper.Keeper.BurnCoins", "sub", 1%nat, "sdk.Int / time subtraction or Coins.Sub guarded by an error-returning balance check before it", ["2ed9f7be1df98e38"]);
-  ("x/tokens/keeper.Keeper.GetAllTokenInfos", "must", 1%nat, "decodes bytes (or re-parses an address) that this module stored itself with the matching Marshal -- audited by kind", []);
-  ("x/tokens/keeper.Keeper.GetTokenBlackWhites", "must", 1%nat, "decodes bytes (or re-parses an address) that this module stored itself with the matching Marshal -- audited by kind", []);
-  ("x/tokens/keeper.Keeper.GetTokenInfo", "must", 1%nat, "decodes bytes (or re-parses an address) that this module stored itself with the matching Marshal -- audited by kind", []);
-  ("x/tokens/keeper.Keeper.SetTokenBlackWhites", "must", 1%nat, "decodes bytes (or re-parses an address) that this module stored itself with the matching Marshal -- audited by kind", []);
-  ("x/tokens/keeper.Keeper.UpsertTokenInfo", "must", 1%nat, "decodes bytes (or re-parses an address) that this module stored itself with the matching Marshal -- audited by kind", []);
+  ("x/tokens/keeper.Keeper.GetAllTokenInfos", "must", 1%nat, "decodes bytes (or re-parses an address) that this module stored itself with the matching Marshal -- audited by kind", ["45d04a9bc583b464"]);
+  ("x/tokens/keeper.Keeper.GetTokenBlackWhites", "must", 1%nat, "decodes bytes (or re-parses an address) that this module stored itself with the matching Marshal -- audited by kind", ["400e430e1d5daffe"]);
+  ("x/tokens/keeper.Keeper.GetTokenInfo", "must", 1%nat, "decodes bytes (or re-parses an address) that this module stored itself with the matching Marshal -- audited by kind", ["2481e0688df2094b"]);
+  ("x/tokens/keeper.Keeper.SetTokenBlackWhites", "must", 1%nat, "decodes bytes (or re-parses an address) that this module stored itself with the matching Marshal -- audited by kind", ["24fec8a3d0725d57"]);
+  ("x/tokens/keeper.Keeper.UpsertTokenInfo", "must", 1%nat, "decodes bytes (or re-parses an address) that this module stored itself with the matching Marshal -- audited by kind", ["fb27e0d2ec7d6af3"]);
   ("x/tokens/keeper.removeTokens", "index", 2%nat, "map lookup or index bounded by the enclosing loop / length check", ["1f05d5b4a9af8ad0"]);
-  ("x/ubi.ApplyRemoveUBIProposalHandler.Apply", "assert", 1%nat, "proposal content assertion inside its own handler: the router dispatches on ProposalType() of the same content, so the dynamic type matches", []);
-  ("x/ubi.ApplyUpsertUBIProposalHandler.Apply", "assert", 1%nat, "proposal content assertion inside its own handler: the router dispatches on ProposalType() of the same content, so the dynamic type matches", []);
-  ("x/ubi/keeper.Keeper.GetUBIRecordByName", "must", 1%nat, "decodes bytes (or re-parses an address) that this module stored itself with the matching Marshal -- audited by kind", []);
+  ("x/ubi.ApplyRemoveUBIProposalHandler.Apply", "assert", 1%nat, "proposal content assertion inside its own handler: the router dispatches on ProposalType() of the same content, so the dynamic type matches", ["fcf626f8521a2345"]);
+  ("x/ubi.ApplyUpsertUBIProposalHandler.Apply", "assert", 1%nat, "proposal content assertion inside its own handler: the router dispatches on ProposalType() of the same content, so the dynamic type matches", ["916d25d69dfc9018"]);
+  ("x/ubi/keeper.Keeper.GetUBIRecordByName", "must", 1%nat, "decodes bytes (or re-parses an address) that this module stored itself with the matching Marshal -- audited by kind", ["e4d31df7cd1b7e04"]);
   ("x/ubi/keeper.Keeper.ProcessUBIRecord", "sub", 1%nat, "sdk.Int arithmetic: no panic", ["6afc9f007454305b"]);
-  ("x/ubi/keeper.Keeper.SetUBIRecord", "must", 1%nat, "decodes bytes (or re-parses an address) that this module stored itself with the matching Marshal -- audited by kind", []);
-  ("x/upgrade.ApplySoftwareUpgradeProposalHandler.Apply", "assert", 1%nat, "proposal content assertion inside its own handler: the router dispatches on ProposalType() of the same content, so the dynamic type matches", []);
+  ("x/ubi/keeper.Keeper.SetUBIRecord", "must", 1%nat, "decodes bytes (or re-parses an address) that this module stored itself with the matching Marshal -- audited by kind", ["6ce15c162e4a47de"]);
+  ("x/upgrade.ApplySoftwareUpgradeProposalHandler.Apply", "assert", 1%nat, "proposal content assertion inside its own handler: the router dispatches on ProposalType() of the same content, so the dynamic type matches", ["e7cef7e89d6a7895"]);
   ("x/upgrade/keeper.Keeper.ApplyUpgradePlan", "index", 1%nat, "map lookup or index bounded by the enclosing loop / length check", ["9972c898b1ebca59"]);
   ("x/upgrade/keeper.Keeper.SaveCurrentPlan", "panic", 1%nat, "unreachable: guards a store / codec invariant (record written together with its index)", ["2375fe2d93f5e3c7"]);
   ("x/upgrade/keeper.Keeper.setNextPlan", "panic", 1%nat, "unreachable: guards a store / codec invariant (record written together with its index)", ["d4933c66b4ada575"]);
@@ -505,8 +518,8 @@ Definition audited (s : string * string * string * string * nat) : bool := exist
 
 Lemma panic_sites_accounted : gen_errors = [] /\ forallb (fun s => covered s || audited s) sites = true.
 Proof. split; vm_compute; reflexivity. Qed.
-(* An audit verdict is given for the CODE of the function, not for its name: every audited function with a
-   division / subtraction / coin-constructor / panic / index site is pinned by the fingerprint of its
+(* A verdict -- audited OR covered by a model -- is given for the CODE of the function as it was read, not for
+   its name: EVERY function that contains a site of the generated table is pinned by the fingerprint of its
    comment- and whitespace-normalised declaration (several accepted fingerprints = trees with pending fix
    patches applied).  A changed function breaks this obligation and triggers the widened search. *)
 Fixpoint fp_lookup (fn : string) (l : list (string * string)) : option string :=
@@ -515,7 +528,7 @@ Definition fp_ok (e : string * string * nat * string * list string) : bool :=
   let '(fn, _, _, _, fps) := e in
   match fps with [] => true | _ => match fp_lookup fn fn_fingerprints with Some h => str_in h fps | None => true (* the function has no site on this tree *) end end.
 Definition changed_audited_functions : list string :=
-  map (fun e => let '(fn, _, _, _, _) := e in fn) (filter (fun e => negb (fp_ok e)) audit_table).
+  map (fun e => let '(fn, _, _, _, _) := e in fn) (filter (fun e => negb (fp_ok e)) (covered_table ++ audit_table)).
 Lemma audited_functions_unchanged : changed_audited_functions = [].
 Proof. vm_compute. reflexivity. Qed.
 Theorem C06_audited_functions_unchanged : changed_audited_functions = [].
